@@ -12,6 +12,21 @@
 (*                                                                         *)
 (* Counter encoding (as logged by the runtime): nesting count + 65536 when *)
 (* the phase bit is set.                                                   *)
+(*                                                                         *)
+(* FutexMode: "futex"  futex() works (FUTEX_WAIT sleeps, FUTEX_WAKE wakes) *)
+(*   "enosys" futex() fails with ENOSYS: on Linux BOTH futex_async() and   *)
+(*            futex_noasync() (include/urcu/futex.h:78-112) then call      *)
+(*            compat_futex_async(): mb; WAIT = load/compare/poll loop,     *)
+(*            WAKE = nothing (runtime: VRT_FUTEX_ENOSYS=1)                 *)
+(*   "compat" the generic branch of futex.h (lines 222-236, platforms      *)
+(*            without futex): futex_async = compat_futex_async,            *)
+(*            futex_noasync = compat_futex_noasync (mb; mutex; WAIT =      *)
+(*            while (uaddr[0] == val) cond_wait; WAKE = cond_broadcast)    *)
+(* Skip: fence labels turned into no-ops, Weak: seq_cst stores turned into *)
+(* plain stores ({} for every claim; used for triage / vacuity control).   *)
+(* SBBlock: a store blocks while the thread's buffer holds SBMax entries   *)
+(* (finite hardware buffer) instead of bounding buffers by a CONSTRAINT;   *)
+(* used for the liveness configurations, which have no state constraint.   *)
 (***************************************************************************)
 EXTENDS Naturals, Integers, Sequences, FiniteSets, TLC
 
@@ -22,7 +37,10 @@ CONSTANTS Threads, Prog, TSO, Tracing, SBMax,
           WaitAttempts,   \* URCU_WAIT_ATTEMPTS of the build
           FaultBudget,    \* number of spurious / EINTR returns of FUTEX_WAIT per execution
           SigThreads,     \* threads that can be interrupted by the signal handler (C19); {} otherwise
-          SigBudget       \* number of signal deliveries per execution
+          SigBudget,      \* number of signal deliveries per execution
+          FutexMode,      \* "futex" | "enosys" | "compat" (see above)
+          Skip, Weak,     \* mutation parameters: sets of labels ({} for all claims)
+          SBBlock         \* TRUE: stores block on a full buffer (SBMax) -- no state constraint needed
 
 PHASE == 65536
 NULL == "NULL"
@@ -52,10 +70,11 @@ variables
   mem = [l \in Locs |-> CASE l = "gp_ctr" -> 1 [] l = "gp_futex" -> 0 [] l = "gptr" -> "obj0" [] l = "waiters" -> END
                           [] l \in {WnNext(Wn(t)) : t \in Threads} -> NULL [] OTHER -> 0],
   sb = [t \in Threads |-> <<>>],
-  lock = [m \in {"gp_lock", "registry_lock"} |-> "free"],
+  lock = [m \in {"gp_lock", "registry_lock", "compat_lock"} |-> "free"],
   acc = [k |-> 0],
   registry = {}, cursnap = {}, qsr = {},       \* reader lists (plain data under registry_lock)
-  sleeping = [t \in Threads |-> "none"],       \* FUTEX_WAIT: location slept on
+  regd = {},                                   \* ghost (C15): threads between rcu_register_thread() and rcu_unregister_thread()
+  sleeping = [t \in Threads |-> "none"],       \* FUTEX_WAIT: location slept on ("compat_cond": pthread_cond_wait in compat_futex_noasync)
   woken = [t \in Threads |-> FALSE],
   faults = 0, sigs = 0,
   myctr = [t \in Threads |-> 0],               \* each thread's reader word as the thread itself sees it (its TLS)
@@ -75,7 +94,7 @@ define {
 }
 
 macro Ld(dst, loc)        { dst := Rd(self, loc); acc := Ev(self, "ld", loc, "-", "-", Rd(self, loc)); }
-macro St(loc, v)          { if (TSO) { sb[self] := Append(sb[self], <<loc, v>>) } else { mem[loc] := v };
+macro St(loc, v)          { if (TSO) { await ~SBBlock \/ Len(sb[self]) < SBMax; sb[self] := Append(sb[self], <<loc, v>>) } else { mem[loc] := v };
                             acc := Ev(self, "st", loc, v, "-", "-"); }
 macro StSC(loc, v)        { await Drained(self); mem[loc] := v; acc := Ev(self, "st", loc, v, "-", "-"); }
 macro Xchg(dst, loc, v)   { await Drained(self); dst := mem[loc]; mem[loc] := v; acc := Ev(self, "xchg", loc, v, "-", dst); }
@@ -85,7 +104,7 @@ macro Unlock(m)           { await Drained(self); lock[m] := "free"; acc := Ev(se
 
 \* the same accesses issued by the signal handler, on behalf of (and through the store buffer of) the interrupted thread T
 macro HLd(T, dst, loc)    { dst := Rd(T, loc); acc := Ev(T, "ld", loc, "-", "-", Rd(T, loc)); }
-macro HSt(T, loc, v)      { if (TSO) { sb[T] := Append(sb[T], <<loc, v>>) } else { mem[loc] := v }; acc := Ev(T, "st", loc, v, "-", "-"); }
+macro HSt(T, loc, v)      { if (TSO) { await ~SBBlock \/ Len(sb[T]) < SBMax; sb[T] := Append(sb[T], <<loc, v>>) } else { mem[loc] := v }; acc := Ev(T, "st", loc, v, "-", "-"); }
 macro HStSC(T, loc, v)    { await Drained(T); mem[loc] := v; acc := Ev(T, "st", loc, v, "-", "-"); }
 macro HMb(T)              { await Drained(T); acc := Ev(T, "mb", "-", "-", "-", "-"); }
 
@@ -114,7 +133,7 @@ h_ltop:   htmp := myctr[T];
           if (Nest(myctr[T]) # 0) { goto h_lnest };
 h_lld:    HLd(T, hg, "gp_ctr");
 h_lst:    HSt(T, Rctr(T), hg); myctr[T] := hg;
-h_lmb:    if (ReaderFence) { HMb(T) };
+h_lmb:    if (ReaderFence /\ "rl_mb" \notin Skip) { HMb(T) };
 h_lin:    if (cs[T] = 0) { hcs[T] := 1000 + sigs };
           goto h_deref;
 h_lnest:  HSt(T, Rctr(T), htmp + 1); myctr[T] := htmp + 1;
@@ -124,19 +143,24 @@ h_use:    assert hheld = NULL \/ alive[hheld];
 h_utop:   htmp := myctr[T];
           if (Nest(myctr[T]) # 1) { goto h_unest };
 h_uout:   hcs[T] := 0; hheld := NULL;
-h_umb1:   if (Flavor = "memb" /\ ReaderFence) { HMb(T) };
-h_ust:    if (Flavor = "mb") { HStSC(T, Rctr(T), htmp - 1) } else { HSt(T, Rctr(T), htmp - 1) };
+h_umb1:   if (Flavor = "memb" /\ ReaderFence /\ "ru_mb1" \notin Skip) { HMb(T) };
+h_ust:    if (Flavor = "mb" /\ "ru_st" \notin Weak) { HStSC(T, Rctr(T), htmp - 1) } else { HSt(T, Rctr(T), htmp - 1) };
           myctr[T] := htmp - 1;
-h_umb2:   if (Flavor = "memb" /\ ReaderFence) { HMb(T) };
+h_umb2:   if (Flavor = "memb" /\ ReaderFence /\ "ru_mb2" \notin Skip) { HMb(T) };
 h_uldf:   HLd(T, hf, "gp_futex");
           if (hf # -1) { goto h_ret };
 h_ustf:   HSt(T, "gp_futex", 0);
+          if (FutexMode = "compat") { goto h_cmb };
 h_uwake:  await Drained(T);
-          with (w \in IF {t \in Threads : sleeping[t] = "gp_futex" /\ ~woken[t]} = {} THEN {"none"}
-                      ELSE {t \in Threads : sleeping[t] = "gp_futex" /\ ~woken[t]}) {
-            if (w # "none") { woken[w] := TRUE };
-            acc := Ev(T, "fwake", "gp_futex", "-", "-", IF w = "none" THEN 0 ELSE 1);
-          };
+          if (FutexMode = "futex") {
+            with (w \in IF {t \in Threads : sleeping[t] = "gp_futex" /\ ~woken[t]} = {} THEN {"none"}
+                        ELSE {t \in Threads : sleeping[t] = "gp_futex" /\ ~woken[t]}) {
+              if (w # "none") { woken[w] := TRUE };
+              acc := Ev(T, "fwake", "gp_futex", "-", "-", IF w = "none" THEN 0 ELSE 1);
+            };
+            goto h_ret;
+          } else { acc := Ev(T, "fwake", "gp_futex", "-", "-", "ENOSYS") };     \* futex() = -1/ENOSYS -> compat_futex_async()
+h_cmb:    HMb(T);                                                \* compat_futex_async: cmm_smp_mb(); FUTEX_WAKE: nothing
           goto h_ret;
 h_unest:  HSt(T, Rctr(T), htmp - 1); myctr[T] := htmp - 1; hheld := NULL;
 h_ret:    assert Nest(myctr[T]) = Nest(entry) /\ (Nest(entry) # 0 => myctr[T] = entry);   \* C19: nesting (and, inside a section, its phase) exactly as found
@@ -166,21 +190,25 @@ t_disp:   if (op.op = "reg") { goto g_lock }
           else { if (old # NULL) { alive[old] := FALSE; res := old; old := NULL }; goto t_ret };   \* free
 
         \* ---------------- rcu_register_thread / rcu_unregister_thread
-g_lock:   Lock("registry_lock");
-g_add:    registry := registry \cup {self};                      \* cds_list_add(&rcu_reader.node, &registry)
+g_lock:   assert self \notin regd /\ Nest(myctr[self]) = 0;       \* urcu_posix_assert(!registered), assert(!(ctr & NEST_MASK)): scenario well-formedness
+          Lock("registry_lock");
+g_add:    registry := registry \cup {self} || regd := regd \cup {self};   \* cds_list_add(&rcu_reader.node, &registry)
 g_unl:    Unlock("registry_lock");
           goto t_ret;
-x_lock:   Lock("registry_lock");
-x_del:    registry := registry \ {self} || cursnap := cursnap \ {self} || qsr := qsr \ {self};   \* cds_list_del(&rcu_reader.node)
+x_lock:   assert self \in regd /\ Nest(myctr[self]) = 0;          \* unregistering inside a critical section is API misuse
+          Lock("registry_lock");
+x_del:    registry := registry \ {self} || cursnap := cursnap \ {self} || qsr := qsr \ {self}   \* cds_list_del(&rcu_reader.node): whichever list holds it
+          || regd := regd \ {self};
 x_unl:    Unlock("registry_lock");
           goto t_ret;
 
         \* ---------------- _rcu_read_lock  (tmp = own ctr is a plain read of the thread's TLS)
-rl_top:   tmp := myctr[self];                                    \* tmp = URCU_TLS(rcu_reader).ctr
+rl_top:   assert self \in regd;                                  \* readers must be registered (C15: sections belong to registered threads only)
+          tmp := myctr[self];                                    \* tmp = URCU_TLS(rcu_reader).ctr
           if (Nest(myctr[self]) # 0) { goto rl_nest };
 rl_ld:    Ld(g, "gp_ctr");                                       \* gctr = uatomic_load(&rcu_gp.ctr)
 rl_st:    St(Rctr(self), g); myctr[self] := g;                   \* uatomic_store(ctr, gctr)
-rl_mb:    if (ReaderFence) { Mb() };                             \* smp_mb_slave() / cmm_smp_mb()
+rl_mb:    if (ReaderFence /\ "rl_mb" \notin Skip) { Mb() };                             \* smp_mb_slave() / cmm_smp_mb()
 rl_in:    cs[self] := i;                                         \* rcu_read_lock() returned: the section has begun
           goto t_ret;
 rl_nest:  St(Rctr(self), tmp + 1); myctr[self] := tmp + 1;       \* uatomic_store(ctr, tmp + URCU_GP_COUNT)
@@ -191,19 +219,24 @@ ru_top:   assert held = NULL \/ alive[held];
           tmp := myctr[self];                                    \* tmp = URCU_TLS(rcu_reader).ctr
           if (Nest(myctr[self]) # 1) { goto ru_nest };
 ru_out:   cs[self] := 0; held := NULL;                           \* outermost unlock entered: the section has ended
-ru_mb1:   if (Flavor = "memb" /\ ReaderFence) { Mb() };          \* memb: smp_mb_slave()
-ru_st:    if (Flavor = "mb") { StSC(Rctr(self), tmp - 1) } else { St(Rctr(self), tmp - 1) };
+ru_mb1:   if (Flavor = "memb" /\ ReaderFence /\ "ru_mb1" \notin Skip) { Mb() };          \* memb: smp_mb_slave()
+ru_st:    if (Flavor = "mb" /\ "ru_st" \notin Weak) { StSC(Rctr(self), tmp - 1) } else { St(Rctr(self), tmp - 1) };   \* mb: CMM_SEQ_CST store
           myctr[self] := tmp - 1;
-ru_mb2:   if (Flavor = "memb" /\ ReaderFence) { Mb() };
+ru_mb2:   if (Flavor = "memb" /\ ReaderFence /\ "ru_mb2" \notin Skip) { Mb() };          \* write rcu_reader.ctr before read futex
 ru_ldf:   Ld(f, "gp_futex");                                     \* urcu_common_wake_up_gp: load futex
           if (f # -1) { goto t_ret };
 ru_stf:   St("gp_futex", 0);
+          if (FutexMode = "compat") { goto ru_cmb };
 ru_wake:  await Drained(self);                                   \* futex_async(FUTEX_WAKE, 1)
-          with (w \in IF {t \in Threads : sleeping[t] = "gp_futex" /\ ~woken[t]} = {} THEN {"none"}
-                      ELSE {t \in Threads : sleeping[t] = "gp_futex" /\ ~woken[t]}) {
-            if (w # "none") { woken[w] := TRUE };
-            acc := Ev(self, "fwake", "gp_futex", "-", "-", IF w = "none" THEN 0 ELSE 1);
-          };
+          if (FutexMode = "futex") {
+            with (w \in IF {t \in Threads : sleeping[t] = "gp_futex" /\ ~woken[t]} = {} THEN {"none"}
+                        ELSE {t \in Threads : sleeping[t] = "gp_futex" /\ ~woken[t]}) {
+              if (w # "none") { woken[w] := TRUE };
+              acc := Ev(self, "fwake", "gp_futex", "-", "-", IF w = "none" THEN 0 ELSE 1);
+            };
+            goto t_ret;
+          } else { acc := Ev(self, "fwake", "gp_futex", "-", "-", "ENOSYS") };  \* futex() = -1/ENOSYS -> compat_futex_async()
+ru_cmb:   Mb();                                                  \* compat_futex_async: cmm_smp_mb(); FUTEX_WAKE: nothing
           goto t_ret;
 ru_nest:  St(Rctr(self), tmp - 1); myctr[self] := tmp - 1;
           goto t_ret;
@@ -216,26 +249,27 @@ p_xchg:   Xchg(old, "gptr", op.o); res := old;
 
         \* ---------------- synchronize_rcu
 s_call:   pre[self] := OpenCS;
-s_mb0:    Mb();                                                  \* cds_wfs_push: cmm_emit_legacy_smp_mb()
+s_mb0:    if ("s_mb0" \notin Skip) { Mb() };                      \* cds_wfs_push: cmm_emit_legacy_smp_mb()
 s_push:   Xchg(oldh, "waiters", Wn(self));                       \* old_head = uatomic_xchg(&s->head, new_head)
 s_link:   St(WnNext(Wn(self)), oldh);                            \* uatomic_store(&node->next, &old_head->node, RELEASE)
           if (oldh # END) { wi := 0; goto a_ld1 };               \* not first in queue: wait for the leader
         \* leader
 s_run:    if (Tracing \/ ~TSO) { await Drained(self); mem[WnState(Wn(self))] := RUNNING }     \* urcu_wait_set_state(&wait, RUNNING): PLAIN store
-          else { sb[self] := Append(sb[self], <<WnState(Wn(self)), RUNNING>>) };            \* (executed code commits plain stores at once)
+          else { await ~SBBlock \/ Len(sb[self]) < SBMax;
+                 sb[self] := Append(sb[self], <<WnState(Wn(self)), RUNNING>>) };            \* (executed code commits plain stores at once)
 s_gplk:   Lock("gp_lock");
 s_pop:    Xchg(popped, "waiters", END);                          \* __cds_wfs_pop_all: uatomic_xchg(&s->head, CDS_WFS_END)
-s_popmb:  Mb();                                                  \* cmm_emit_legacy_smp_mb()
+s_popmb:  if ("s_popmb" \notin Skip) { Mb() };                    \* cmm_emit_legacy_smp_mb()
 s_rglk:   Lock("registry_lock");
           if (registry = {}) { goto s_out };
-s_mm1:    mret := "s_p1"; goto master;                           \* smp_mb_master()
+s_mm1:    mret := "s_p1"; if ("s_mm1" \in Skip) { goto s_p1 } else { goto master };   \* smp_mb_master()
 s_p1:     ph := 1; ret := "s_mb2"; goto w_top;                   \* wait_for_readers(&registry, &cur_snap_readers, &qsreaders)
-s_mb2:    Mb();                                                  \* cmm_smp_mb()
+s_mb2:    if ("s_mb2" \notin Skip) { Mb() };                      \* cmm_smp_mb() ("not formally required")
 s_flip:   St("gp_ctr", IF Ph(Rd(self, "gp_ctr")) = 0 THEN Rd(self, "gp_ctr") + PHASE ELSE Rd(self, "gp_ctr") - PHASE);
-s_mb3:    Mb();
+s_mb3:    if ("s_mb3" \notin Skip) { Mb() };                      \* cmm_smp_mb() ("not formally required")
 s_p2:     ph := 2; ret := "s_splice"; goto w_top;                \* wait_for_readers(&cur_snap_readers, NULL, &qsreaders)
 s_splice: registry := registry \cup qsr || qsr := {};            \* cds_list_splice(&qsreaders, &registry)
-s_mm2:    mret := "s_out"; goto master;
+s_mm2:    mret := "s_out"; if ("s_mm2" \in Skip) { goto s_out } else { goto master };
 s_out:    Unlock("registry_lock");
 s_gpun:   Unlock("gp_lock");
           it := popped;
@@ -249,13 +283,24 @@ k_as:     Ld(st, WnState(it));                                   \* urcu_adaptat
           assert st = WAITING;
 k_wk:     St(WnState(it), WAKEUP);                               \* uatomic_store(&wait->state, WAKEUP, RELEASE)
 k_ld2:    Ld(st, WnState(it));
-          if (HasBit(st, RUNNING)) { goto k_or };
+          if (HasBit(st, RUNNING)) { goto k_or } else if (FutexMode = "compat") { goto kn_mb };
 k_fw:     await Drained(self);                                   \* futex_noasync(&wait->state, FUTEX_WAKE, 1)
-          with (w \in IF {t \in Threads : sleeping[t] = WnState(it) /\ ~woken[t]} = {} THEN {"none"}
-                      ELSE {t \in Threads : sleeping[t] = WnState(it) /\ ~woken[t]}) {
-            if (w # "none") { woken[w] := TRUE };
-            acc := Ev(self, "fwake", WnState(it), "-", "-", IF w = "none" THEN 0 ELSE 1);
-          };
+          if (FutexMode = "futex") {
+            with (w \in IF {t \in Threads : sleeping[t] = WnState(it) /\ ~woken[t]} = {} THEN {"none"}
+                        ELSE {t \in Threads : sleeping[t] = WnState(it) /\ ~woken[t]}) {
+              if (w # "none") { woken[w] := TRUE };
+              acc := Ev(self, "fwake", WnState(it), "-", "-", IF w = "none" THEN 0 ELSE 1);
+            };
+            goto k_or;
+          } else { acc := Ev(self, "fwake", WnState(it), "-", "-", "ENOSYS") };   \* Linux: ENOSYS -> compat_futex_async()
+kc_mb:    Mb();                                                  \* compat_futex_async: cmm_smp_mb(); FUTEX_WAKE: nothing
+          goto k_or;
+kn_mb:    Mb();                                                  \* compat_futex_noasync(FUTEX_WAKE): cmm_smp_mb()
+kn_lock:  Lock("compat_lock");                                   \* pthread_mutex_lock(&__urcu_compat_futex_lock)
+kn_bc:    await Drained(self);                                   \* pthread_cond_broadcast(&__urcu_compat_futex_cond): every cond waiter, whatever its uaddr
+          woken := [t \in Threads |-> IF sleeping[t] = "compat_cond" THEN TRUE ELSE woken[t]];
+          acc := Ev(self, "cbroadcast", "-", "-", "-", "-");
+kn_unl:   Unlock("compat_lock");
 k_or:     await Drained(self);                                   \* uatomic_or_mo(&wait->state, TEARDOWN, RELEASE)
           mem[WnState(it)] := OrBit(mem[WnState(it)], TEARDOWN) ||
           acc := Ev(self, "or", WnState(it), TEARDOWN, "-", OrBit(mem[WnState(it)], TEARDOWN));
@@ -265,14 +310,35 @@ k_or:     await Drained(self);                                   \* uatomic_or_m
 a_ld1:    Ld(st, WnState(Wn(self)));                             \* for (i < URCU_WAIT_ATTEMPTS) if (state != WAITING) goto skip
           if (st # WAITING) { goto a_or } else { wi := wi + 1; if (wi < WaitAttempts) { goto a_ld1 } else { goto a_ld2 } };
 a_ld2:    Ld(st, WnState(Wn(self)));                             \* while (state == WAITING)
-          if (st # WAITING) { goto a_or };
+          if (st # WAITING) { goto a_or } else if (FutexMode = "compat") { goto an_mb };
 a_fw:     await Drained(self);                                   \* futex_noasync(&wait->state, FUTEX_WAIT, WAITING)
-          if (mem[WnState(Wn(self))] # WAITING) { acc := Ev(self, "fwait", WnState(Wn(self)), WAITING, "-", "EAGAIN"); goto a_or }
+          if (FutexMode # "futex") { acc := Ev(self, "fwait", WnState(Wn(self)), "-", "-", "ENOSYS"); goto ac_mb }   \* Linux: ENOSYS -> compat_futex_async()
+          else if (mem[WnState(Wn(self))] # WAITING) { acc := Ev(self, "fwait", WnState(Wn(self)), WAITING, "-", "EAGAIN"); goto a_or }
           else { sleeping[self] := WnState(Wn(self)); woken[self] := FALSE; acc := Ev(self, "fwait", WnState(Wn(self)), WAITING, "-", "SLEEP") };
 a_wk:     either { await woken[self]; acc := Ev(self, "fwoke", WnState(Wn(self)), "-", "-", "WAKE") }
           or { await ~woken[self] /\ faults < FaultBudget; faults := faults + 1; acc := Ev(self, "fwoke", WnState(Wn(self)), "-", "-", "SPURIOUS") }
           or { await ~woken[self] /\ faults < FaultBudget; faults := faults + 1; acc := Ev(self, "fwoke", WnState(Wn(self)), "-", "-", "EINTR") };
           sleeping[self] := "none"; woken[self] := FALSE;
+          goto a_ld2;
+        \* compat_futex_async(FUTEX_WAIT): mb; while (uatomic_load(uaddr) == val) poll(NULL, 0, 10); return 0 -> "continue"
+ac_mb:    Mb();
+ac_ld:    Ld(st, WnState(Wn(self)));
+          if (st = WAITING) { goto ac_ld } else { goto a_ld2 };
+        \* compat_futex_noasync(FUTEX_WAIT): mb; lock; while (uatomic_load(uaddr) == val) pthread_cond_wait(); unlock; return 0
+an_mb:    Mb();
+an_lock:  Lock("compat_lock");
+an_ld:    Ld(st, WnState(Wn(self)));
+          if (st # WAITING) { goto an_unl };
+an_cw:    await Drained(self);                                   \* pthread_cond_wait: atomically release the mutex and sleep
+          lock["compat_lock"] := "free"; sleeping[self] := "compat_cond"; woken[self] := FALSE;
+          acc := Ev(self, "cwait", "compat_lock", "-", "-", "-");
+an_cwk:   either { await woken[self] }                           \* broadcast ...
+          or { await ~woken[self] /\ faults < FaultBudget; faults := faults + 1 };   \* ... or spurious wake-up (POSIX allows it)
+          sleeping[self] := "none"; woken[self] := FALSE;
+an_relk:  await Drained(self) /\ lock["compat_lock"] = "free";   \* re-acquire the mutex before pthread_cond_wait returns
+          lock["compat_lock"] := self; acc := Ev(self, "cwoke", "compat_lock", "-", "-", "-");
+          goto an_ld;
+an_unl:   Unlock("compat_lock");
           goto a_ld2;
 a_or:     await Drained(self);                                   \* uatomic_or(&wait->state, RUNNING)
           mem[WnState(Wn(self))] := OrBit(mem[WnState(Wn(self))], RUNNING) ||
@@ -297,10 +363,11 @@ w_loop:   if (wl < QSAttempts) { wl := wl + 1 };
           if (wl < QSAttempts) { goto w_scan0 };
 w_dec:    await Drained(self);                                   \* uatomic_dec(&rcu_gp.futex)
           mem["gp_futex"] := mem["gp_futex"] - 1 || acc := Ev(self, "dec", "gp_futex", "-", "-", mem["gp_futex"] - 1);
-w_mm:     mret := "w_scan0"; goto master;
+w_mm:     mret := "w_scan0"; if ("w_mm" \in Skip) { goto w_scan0 } else { goto master };   \* write futex before read reader_gp
 w_scan0:  scan := IF ph = 1 THEN registry ELSE cursnap;
 w_scan:   if (scan = {}) { goto w_chk };
 w_ldr:    with (r \in scan) {                                    \* urcu_common_reader_state: v = uatomic_load(ctr)
+            assert r \in regd;                                   \* C15: never the reader word of a thread whose unregister has taken effect
             v := Rd(self, Rctr(r)); acc := Ev(self, "ld", Rctr(r), "-", "-", Rd(self, Rctr(r)));
             scan := scan \ {r};
             if (Nest(Rd(self, Rctr(r))) = 0) {                   \* INACTIVE
@@ -313,22 +380,27 @@ w_ldr:    with (r \in scan) {                                    \* urcu_common_
           goto w_scan;
 w_chk:    if ((IF ph = 1 THEN registry ELSE cursnap) # {}) { goto w_wait }
           else if (wl < QSAttempts) { goto w_done };
-w_mm2:    mret := "w_st0"; goto master;
+w_mm2:    mret := "w_st0"; if ("w_mm2" \in Skip) { goto w_st0 } else { goto master };   \* read reader_gp before write futex
 w_st0:    St("gp_futex", 0);
 w_done:   if (ret = "s_mb2") { goto s_mb2 } else { goto s_splice };
 w_wait:   if (wl < QSAttempts) { goto wr_unl };
-wg_mm:    mret := "wg_unl"; goto master;                         \* wait_gp(): smp_mb_master()
+wg_mm:    mret := "wg_unl"; if ("wg_mm" \in Skip) { goto wg_unl } else { goto master };   \* wait_gp(): smp_mb_master()
 wg_unl:   Unlock("registry_lock");
 wg_ld:    Ld(f, "gp_futex");                                     \* while (uatomic_load(&rcu_gp.futex) == -1)
-          if (f # -1) { goto wg_lock };
+          if (f # -1) { goto wg_lock } else if (FutexMode = "compat") { goto wgc_mb };
 wg_fw:    await Drained(self);                                   \* futex_async(&rcu_gp.futex, FUTEX_WAIT, -1)
-          if (mem["gp_futex"] # -1) { acc := Ev(self, "fwait", "gp_futex", -1, "-", "EAGAIN"); goto wg_lock }
+          if (FutexMode # "futex") { acc := Ev(self, "fwait", "gp_futex", "-", "-", "ENOSYS"); goto wgc_mb }   \* ENOSYS -> compat_futex_async()
+          else if (mem["gp_futex"] # -1) { acc := Ev(self, "fwait", "gp_futex", -1, "-", "EAGAIN"); goto wg_lock }
           else { sleeping[self] := "gp_futex"; woken[self] := FALSE; acc := Ev(self, "fwait", "gp_futex", -1, "-", "SLEEP") };
 wg_wk:    either { await woken[self]; acc := Ev(self, "fwoke", "gp_futex", "-", "-", "WAKE") }
           or { await ~woken[self] /\ faults < FaultBudget; faults := faults + 1; acc := Ev(self, "fwoke", "gp_futex", "-", "-", "SPURIOUS") }
           or { await ~woken[self] /\ faults < FaultBudget; faults := faults + 1; acc := Ev(self, "fwoke", "gp_futex", "-", "-", "EINTR") };
           sleeping[self] := "none"; woken[self] := FALSE;
           goto wg_ld;
+        \* compat_futex_async(FUTEX_WAIT): mb; while (uatomic_load(uaddr) == val) poll(NULL, 0, 10); return 0 -> "continue"
+wgc_mb:   Mb();
+wgc_ld:   Ld(f, "gp_futex");
+          if (f = -1) { goto wgc_ld } else { goto wg_ld };
 wg_lock:  Lock("registry_lock");
           goto w_loop;
 wr_unl:   Unlock("registry_lock");                               \* busy-wait round: unlock, caa_cpu_relax(), lock
@@ -350,8 +422,8 @@ t_end:  skip;
 }
 } *)
 \* BEGIN TRANSLATION
-VARIABLES pc, mem, sb, lock, acc, registry, cursnap, qsr, sleeping, woken, 
-          faults, sigs, myctr, insig, hcs, alive, cs, pre
+VARIABLES pc, mem, sb, lock, acc, registry, cursnap, qsr, regd, sleeping, 
+          woken, faults, sigs, myctr, insig, hcs, alive, cs, pre
 
 (* define statement *)
 LastIdx(t, loc) == LET S == {i \in DOMAIN sb[t] : sb[t][i][1] = loc} IN
@@ -364,10 +436,10 @@ OpenCS == {<<t, cs[t]>> : t \in {x \in Threads : cs[x] # 0}} \cup {<<t, hcs[t]>>
 VARIABLES T, htmp, hg, hf, hheld, entry, i, op, res, tmp, g, f, held, old, 
           oldh, popped, it, nx, st, wi, wl, ph, scan, v, ipi, ret, mret
 
-vars == << pc, mem, sb, lock, acc, registry, cursnap, qsr, sleeping, woken, 
-           faults, sigs, myctr, insig, hcs, alive, cs, pre, T, htmp, hg, hf, 
-           hheld, entry, i, op, res, tmp, g, f, held, old, oldh, popped, it, 
-           nx, st, wi, wl, ph, scan, v, ipi, ret, mret >>
+vars == << pc, mem, sb, lock, acc, registry, cursnap, qsr, regd, sleeping, 
+           woken, faults, sigs, myctr, insig, hcs, alive, cs, pre, T, htmp, 
+           hg, hf, hheld, entry, i, op, res, tmp, g, f, held, old, oldh, 
+           popped, it, nx, st, wi, wl, ph, scan, v, ipi, ret, mret >>
 
 ProcSet == (Flushers) \cup (SigIds) \cup (Threads)
 
@@ -375,11 +447,12 @@ Init == (* Global variables *)
         /\ mem = [l \in Locs |-> CASE l = "gp_ctr" -> 1 [] l = "gp_futex" -> 0 [] l = "gptr" -> "obj0" [] l = "waiters" -> END
                                    [] l \in {WnNext(Wn(t)) : t \in Threads} -> NULL [] OTHER -> 0]
         /\ sb = [t \in Threads |-> <<>>]
-        /\ lock = [m \in {"gp_lock", "registry_lock"} |-> "free"]
+        /\ lock = [m \in {"gp_lock", "registry_lock", "compat_lock"} |-> "free"]
         /\ acc = [k |-> 0]
         /\ registry = {}
         /\ cursnap = {}
         /\ qsr = {}
+        /\ regd = {}
         /\ sleeping = [t \in Threads |-> "none"]
         /\ woken = [t \in Threads |-> FALSE]
         /\ faults = 0
@@ -430,11 +503,11 @@ fl(self) == /\ pc[self] = "fl"
                /\ mem' = [mem EXCEPT ![Head(sb[FlOf[self]])[1]] = Head(sb[FlOf[self]])[2]]
                /\ sb' = [sb EXCEPT ![FlOf[self]] = Tail(sb[FlOf[self]])]
             /\ pc' = [pc EXCEPT ![self] = "fl"]
-            /\ UNCHANGED << lock, registry, cursnap, qsr, sleeping, woken, 
-                            faults, sigs, myctr, insig, hcs, alive, cs, pre, T, 
-                            htmp, hg, hf, hheld, entry, i, op, res, tmp, g, f, 
-                            held, old, oldh, popped, it, nx, st, wi, wl, ph, 
-                            scan, v, ipi, ret, mret >>
+            /\ UNCHANGED << lock, registry, cursnap, qsr, regd, sleeping, 
+                            woken, faults, sigs, myctr, insig, hcs, alive, cs, 
+                            pre, T, htmp, hg, hf, hheld, entry, i, op, res, 
+                            tmp, g, f, held, old, oldh, popped, it, nx, st, wi, 
+                            wl, ph, scan, v, ipi, ret, mret >>
 
 flusher(self) == fl(self)
 
@@ -447,7 +520,7 @@ h_idle(self) == /\ pc[self] = "h_idle"
                 /\ entry' = [entry EXCEPT ![self] = myctr[T[self]]]
                 /\ acc' = Ev(T[self], "sig_enter", "-", "-", "-", "-")
                 /\ pc' = [pc EXCEPT ![self] = "h_ltop"]
-                /\ UNCHANGED << mem, sb, lock, registry, cursnap, qsr, 
+                /\ UNCHANGED << mem, sb, lock, registry, cursnap, qsr, regd, 
                                 sleeping, woken, faults, myctr, hcs, alive, cs, 
                                 pre, T, htmp, hg, hf, hheld, i, op, res, tmp, 
                                 g, f, held, old, oldh, popped, it, nx, st, wi, 
@@ -459,49 +532,51 @@ h_ltop(self) == /\ pc[self] = "h_ltop"
                       THEN /\ pc' = [pc EXCEPT ![self] = "h_lnest"]
                       ELSE /\ pc' = [pc EXCEPT ![self] = "h_lld"]
                 /\ UNCHANGED << mem, sb, lock, acc, registry, cursnap, qsr, 
-                                sleeping, woken, faults, sigs, myctr, insig, 
-                                hcs, alive, cs, pre, T, hg, hf, hheld, entry, 
-                                i, op, res, tmp, g, f, held, old, oldh, popped, 
-                                it, nx, st, wi, wl, ph, scan, v, ipi, ret, 
-                                mret >>
+                                regd, sleeping, woken, faults, sigs, myctr, 
+                                insig, hcs, alive, cs, pre, T, hg, hf, hheld, 
+                                entry, i, op, res, tmp, g, f, held, old, oldh, 
+                                popped, it, nx, st, wi, wl, ph, scan, v, ipi, 
+                                ret, mret >>
 
 h_lld(self) == /\ pc[self] = "h_lld"
                /\ hg' = [hg EXCEPT ![self] = Rd(T[self], "gp_ctr")]
                /\ acc' = Ev(T[self], "ld", "gp_ctr", "-", "-", Rd(T[self], "gp_ctr"))
                /\ pc' = [pc EXCEPT ![self] = "h_lst"]
-               /\ UNCHANGED << mem, sb, lock, registry, cursnap, qsr, sleeping, 
-                               woken, faults, sigs, myctr, insig, hcs, alive, 
-                               cs, pre, T, htmp, hf, hheld, entry, i, op, res, 
-                               tmp, g, f, held, old, oldh, popped, it, nx, st, 
-                               wi, wl, ph, scan, v, ipi, ret, mret >>
+               /\ UNCHANGED << mem, sb, lock, registry, cursnap, qsr, regd, 
+                               sleeping, woken, faults, sigs, myctr, insig, 
+                               hcs, alive, cs, pre, T, htmp, hf, hheld, entry, 
+                               i, op, res, tmp, g, f, held, old, oldh, popped, 
+                               it, nx, st, wi, wl, ph, scan, v, ipi, ret, mret >>
 
 h_lst(self) == /\ pc[self] = "h_lst"
                /\ IF TSO
-                     THEN /\ sb' = [sb EXCEPT ![T[self]] = Append(sb[T[self]], <<(Rctr(T[self])), hg[self]>>)]
+                     THEN /\ ~SBBlock \/ Len(sb[T[self]]) < SBMax
+                          /\ sb' = [sb EXCEPT ![T[self]] = Append(sb[T[self]], <<(Rctr(T[self])), hg[self]>>)]
                           /\ mem' = mem
                      ELSE /\ mem' = [mem EXCEPT ![(Rctr(T[self]))] = hg[self]]
                           /\ sb' = sb
                /\ acc' = Ev(T[self], "st", (Rctr(T[self])), hg[self], "-", "-")
                /\ myctr' = [myctr EXCEPT ![T[self]] = hg[self]]
                /\ pc' = [pc EXCEPT ![self] = "h_lmb"]
-               /\ UNCHANGED << lock, registry, cursnap, qsr, sleeping, woken, 
-                               faults, sigs, insig, hcs, alive, cs, pre, T, 
-                               htmp, hg, hf, hheld, entry, i, op, res, tmp, g, 
-                               f, held, old, oldh, popped, it, nx, st, wi, wl, 
-                               ph, scan, v, ipi, ret, mret >>
+               /\ UNCHANGED << lock, registry, cursnap, qsr, regd, sleeping, 
+                               woken, faults, sigs, insig, hcs, alive, cs, pre, 
+                               T, htmp, hg, hf, hheld, entry, i, op, res, tmp, 
+                               g, f, held, old, oldh, popped, it, nx, st, wi, 
+                               wl, ph, scan, v, ipi, ret, mret >>
 
 h_lmb(self) == /\ pc[self] = "h_lmb"
-               /\ IF ReaderFence
+               /\ IF ReaderFence /\ "rl_mb" \notin Skip
                      THEN /\ Drained(T[self])
                           /\ acc' = Ev(T[self], "mb", "-", "-", "-", "-")
                      ELSE /\ TRUE
                           /\ acc' = acc
                /\ pc' = [pc EXCEPT ![self] = "h_lin"]
-               /\ UNCHANGED << mem, sb, lock, registry, cursnap, qsr, sleeping, 
-                               woken, faults, sigs, myctr, insig, hcs, alive, 
-                               cs, pre, T, htmp, hg, hf, hheld, entry, i, op, 
-                               res, tmp, g, f, held, old, oldh, popped, it, nx, 
-                               st, wi, wl, ph, scan, v, ipi, ret, mret >>
+               /\ UNCHANGED << mem, sb, lock, registry, cursnap, qsr, regd, 
+                               sleeping, woken, faults, sigs, myctr, insig, 
+                               hcs, alive, cs, pre, T, htmp, hg, hf, hheld, 
+                               entry, i, op, res, tmp, g, f, held, old, oldh, 
+                               popped, it, nx, st, wi, wl, ph, scan, v, ipi, 
+                               ret, mret >>
 
 h_lin(self) == /\ pc[self] = "h_lin"
                /\ IF cs[T[self]] = 0
@@ -510,31 +585,33 @@ h_lin(self) == /\ pc[self] = "h_lin"
                           /\ hcs' = hcs
                /\ pc' = [pc EXCEPT ![self] = "h_deref"]
                /\ UNCHANGED << mem, sb, lock, acc, registry, cursnap, qsr, 
-                               sleeping, woken, faults, sigs, myctr, insig, 
-                               alive, cs, pre, T, htmp, hg, hf, hheld, entry, 
-                               i, op, res, tmp, g, f, held, old, oldh, popped, 
-                               it, nx, st, wi, wl, ph, scan, v, ipi, ret, mret >>
+                               regd, sleeping, woken, faults, sigs, myctr, 
+                               insig, alive, cs, pre, T, htmp, hg, hf, hheld, 
+                               entry, i, op, res, tmp, g, f, held, old, oldh, 
+                               popped, it, nx, st, wi, wl, ph, scan, v, ipi, 
+                               ret, mret >>
 
 h_lnest(self) == /\ pc[self] = "h_lnest"
                  /\ IF TSO
-                       THEN /\ sb' = [sb EXCEPT ![T[self]] = Append(sb[T[self]], <<(Rctr(T[self])), (htmp[self] + 1)>>)]
+                       THEN /\ ~SBBlock \/ Len(sb[T[self]]) < SBMax
+                            /\ sb' = [sb EXCEPT ![T[self]] = Append(sb[T[self]], <<(Rctr(T[self])), (htmp[self] + 1)>>)]
                             /\ mem' = mem
                        ELSE /\ mem' = [mem EXCEPT ![(Rctr(T[self]))] = htmp[self] + 1]
                             /\ sb' = sb
                  /\ acc' = Ev(T[self], "st", (Rctr(T[self])), (htmp[self] + 1), "-", "-")
                  /\ myctr' = [myctr EXCEPT ![T[self]] = htmp[self] + 1]
                  /\ pc' = [pc EXCEPT ![self] = "h_deref"]
-                 /\ UNCHANGED << lock, registry, cursnap, qsr, sleeping, woken, 
-                                 faults, sigs, insig, hcs, alive, cs, pre, T, 
-                                 htmp, hg, hf, hheld, entry, i, op, res, tmp, 
-                                 g, f, held, old, oldh, popped, it, nx, st, wi, 
-                                 wl, ph, scan, v, ipi, ret, mret >>
+                 /\ UNCHANGED << lock, registry, cursnap, qsr, regd, sleeping, 
+                                 woken, faults, sigs, insig, hcs, alive, cs, 
+                                 pre, T, htmp, hg, hf, hheld, entry, i, op, 
+                                 res, tmp, g, f, held, old, oldh, popped, it, 
+                                 nx, st, wi, wl, ph, scan, v, ipi, ret, mret >>
 
 h_deref(self) == /\ pc[self] = "h_deref"
                  /\ hheld' = [hheld EXCEPT ![self] = Rd(T[self], "gptr")]
                  /\ acc' = Ev(T[self], "ld", "gptr", "-", "-", Rd(T[self], "gptr"))
                  /\ pc' = [pc EXCEPT ![self] = "h_use"]
-                 /\ UNCHANGED << mem, sb, lock, registry, cursnap, qsr, 
+                 /\ UNCHANGED << mem, sb, lock, registry, cursnap, qsr, regd, 
                                  sleeping, woken, faults, sigs, myctr, insig, 
                                  hcs, alive, cs, pre, T, htmp, hg, hf, entry, 
                                  i, op, res, tmp, g, f, held, old, oldh, 
@@ -543,14 +620,14 @@ h_deref(self) == /\ pc[self] = "h_deref"
 
 h_use(self) == /\ pc[self] = "h_use"
                /\ Assert(hheld[self] = NULL \/ alive[hheld[self]], 
-                         "Failure of assertion at line 122, column 11.")
+                         "Failure of assertion at line 141, column 11.")
                /\ pc' = [pc EXCEPT ![self] = "h_utop"]
                /\ UNCHANGED << mem, sb, lock, acc, registry, cursnap, qsr, 
-                               sleeping, woken, faults, sigs, myctr, insig, 
-                               hcs, alive, cs, pre, T, htmp, hg, hf, hheld, 
-                               entry, i, op, res, tmp, g, f, held, old, oldh, 
-                               popped, it, nx, st, wi, wl, ph, scan, v, ipi, 
-                               ret, mret >>
+                               regd, sleeping, woken, faults, sigs, myctr, 
+                               insig, hcs, alive, cs, pre, T, htmp, hg, hf, 
+                               hheld, entry, i, op, res, tmp, g, f, held, old, 
+                               oldh, popped, it, nx, st, wi, wl, ph, scan, v, 
+                               ipi, ret, mret >>
 
 h_utop(self) == /\ pc[self] = "h_utop"
                 /\ htmp' = [htmp EXCEPT ![self] = myctr[T[self]]]
@@ -558,30 +635,31 @@ h_utop(self) == /\ pc[self] = "h_utop"
                       THEN /\ pc' = [pc EXCEPT ![self] = "h_unest"]
                       ELSE /\ pc' = [pc EXCEPT ![self] = "h_uout"]
                 /\ UNCHANGED << mem, sb, lock, acc, registry, cursnap, qsr, 
-                                sleeping, woken, faults, sigs, myctr, insig, 
-                                hcs, alive, cs, pre, T, hg, hf, hheld, entry, 
-                                i, op, res, tmp, g, f, held, old, oldh, popped, 
-                                it, nx, st, wi, wl, ph, scan, v, ipi, ret, 
-                                mret >>
+                                regd, sleeping, woken, faults, sigs, myctr, 
+                                insig, hcs, alive, cs, pre, T, hg, hf, hheld, 
+                                entry, i, op, res, tmp, g, f, held, old, oldh, 
+                                popped, it, nx, st, wi, wl, ph, scan, v, ipi, 
+                                ret, mret >>
 
 h_uout(self) == /\ pc[self] = "h_uout"
                 /\ hcs' = [hcs EXCEPT ![T[self]] = 0]
                 /\ hheld' = [hheld EXCEPT ![self] = NULL]
                 /\ pc' = [pc EXCEPT ![self] = "h_umb1"]
                 /\ UNCHANGED << mem, sb, lock, acc, registry, cursnap, qsr, 
-                                sleeping, woken, faults, sigs, myctr, insig, 
-                                alive, cs, pre, T, htmp, hg, hf, entry, i, op, 
-                                res, tmp, g, f, held, old, oldh, popped, it, 
-                                nx, st, wi, wl, ph, scan, v, ipi, ret, mret >>
+                                regd, sleeping, woken, faults, sigs, myctr, 
+                                insig, alive, cs, pre, T, htmp, hg, hf, entry, 
+                                i, op, res, tmp, g, f, held, old, oldh, popped, 
+                                it, nx, st, wi, wl, ph, scan, v, ipi, ret, 
+                                mret >>
 
 h_umb1(self) == /\ pc[self] = "h_umb1"
-                /\ IF Flavor = "memb" /\ ReaderFence
+                /\ IF Flavor = "memb" /\ ReaderFence /\ "ru_mb1" \notin Skip
                       THEN /\ Drained(T[self])
                            /\ acc' = Ev(T[self], "mb", "-", "-", "-", "-")
                       ELSE /\ TRUE
                            /\ acc' = acc
                 /\ pc' = [pc EXCEPT ![self] = "h_ust"]
-                /\ UNCHANGED << mem, sb, lock, registry, cursnap, qsr, 
+                /\ UNCHANGED << mem, sb, lock, registry, cursnap, qsr, regd, 
                                 sleeping, woken, faults, sigs, myctr, insig, 
                                 hcs, alive, cs, pre, T, htmp, hg, hf, hheld, 
                                 entry, i, op, res, tmp, g, f, held, old, oldh, 
@@ -589,33 +667,34 @@ h_umb1(self) == /\ pc[self] = "h_umb1"
                                 ret, mret >>
 
 h_ust(self) == /\ pc[self] = "h_ust"
-               /\ IF Flavor = "mb"
+               /\ IF Flavor = "mb" /\ "ru_st" \notin Weak
                      THEN /\ Drained(T[self])
                           /\ mem' = [mem EXCEPT ![(Rctr(T[self]))] = htmp[self] - 1]
                           /\ acc' = Ev(T[self], "st", (Rctr(T[self])), (htmp[self] - 1), "-", "-")
                           /\ sb' = sb
                      ELSE /\ IF TSO
-                                THEN /\ sb' = [sb EXCEPT ![T[self]] = Append(sb[T[self]], <<(Rctr(T[self])), (htmp[self] - 1)>>)]
+                                THEN /\ ~SBBlock \/ Len(sb[T[self]]) < SBMax
+                                     /\ sb' = [sb EXCEPT ![T[self]] = Append(sb[T[self]], <<(Rctr(T[self])), (htmp[self] - 1)>>)]
                                      /\ mem' = mem
                                 ELSE /\ mem' = [mem EXCEPT ![(Rctr(T[self]))] = htmp[self] - 1]
                                      /\ sb' = sb
                           /\ acc' = Ev(T[self], "st", (Rctr(T[self])), (htmp[self] - 1), "-", "-")
                /\ myctr' = [myctr EXCEPT ![T[self]] = htmp[self] - 1]
                /\ pc' = [pc EXCEPT ![self] = "h_umb2"]
-               /\ UNCHANGED << lock, registry, cursnap, qsr, sleeping, woken, 
-                               faults, sigs, insig, hcs, alive, cs, pre, T, 
-                               htmp, hg, hf, hheld, entry, i, op, res, tmp, g, 
-                               f, held, old, oldh, popped, it, nx, st, wi, wl, 
-                               ph, scan, v, ipi, ret, mret >>
+               /\ UNCHANGED << lock, registry, cursnap, qsr, regd, sleeping, 
+                               woken, faults, sigs, insig, hcs, alive, cs, pre, 
+                               T, htmp, hg, hf, hheld, entry, i, op, res, tmp, 
+                               g, f, held, old, oldh, popped, it, nx, st, wi, 
+                               wl, ph, scan, v, ipi, ret, mret >>
 
 h_umb2(self) == /\ pc[self] = "h_umb2"
-                /\ IF Flavor = "memb" /\ ReaderFence
+                /\ IF Flavor = "memb" /\ ReaderFence /\ "ru_mb2" \notin Skip
                       THEN /\ Drained(T[self])
                            /\ acc' = Ev(T[self], "mb", "-", "-", "-", "-")
                       ELSE /\ TRUE
                            /\ acc' = acc
                 /\ pc' = [pc EXCEPT ![self] = "h_uldf"]
-                /\ UNCHANGED << mem, sb, lock, registry, cursnap, qsr, 
+                /\ UNCHANGED << mem, sb, lock, registry, cursnap, qsr, regd, 
                                 sleeping, woken, faults, sigs, myctr, insig, 
                                 hcs, alive, cs, pre, T, htmp, hg, hf, hheld, 
                                 entry, i, op, res, tmp, g, f, held, old, oldh, 
@@ -628,7 +707,7 @@ h_uldf(self) == /\ pc[self] = "h_uldf"
                 /\ IF hf'[self] # -1
                       THEN /\ pc' = [pc EXCEPT ![self] = "h_ret"]
                       ELSE /\ pc' = [pc EXCEPT ![self] = "h_ustf"]
-                /\ UNCHANGED << mem, sb, lock, registry, cursnap, qsr, 
+                /\ UNCHANGED << mem, sb, lock, registry, cursnap, qsr, regd, 
                                 sleeping, woken, faults, sigs, myctr, insig, 
                                 hcs, alive, cs, pre, T, htmp, hg, hheld, entry, 
                                 i, op, res, tmp, g, f, held, old, oldh, popped, 
@@ -637,38 +716,57 @@ h_uldf(self) == /\ pc[self] = "h_uldf"
 
 h_ustf(self) == /\ pc[self] = "h_ustf"
                 /\ IF TSO
-                      THEN /\ sb' = [sb EXCEPT ![T[self]] = Append(sb[T[self]], <<"gp_futex", 0>>)]
+                      THEN /\ ~SBBlock \/ Len(sb[T[self]]) < SBMax
+                           /\ sb' = [sb EXCEPT ![T[self]] = Append(sb[T[self]], <<"gp_futex", 0>>)]
                            /\ mem' = mem
                       ELSE /\ mem' = [mem EXCEPT !["gp_futex"] = 0]
                            /\ sb' = sb
                 /\ acc' = Ev(T[self], "st", "gp_futex", 0, "-", "-")
-                /\ pc' = [pc EXCEPT ![self] = "h_uwake"]
-                /\ UNCHANGED << lock, registry, cursnap, qsr, sleeping, woken, 
-                                faults, sigs, myctr, insig, hcs, alive, cs, 
-                                pre, T, htmp, hg, hf, hheld, entry, i, op, res, 
-                                tmp, g, f, held, old, oldh, popped, it, nx, st, 
-                                wi, wl, ph, scan, v, ipi, ret, mret >>
+                /\ IF FutexMode = "compat"
+                      THEN /\ pc' = [pc EXCEPT ![self] = "h_cmb"]
+                      ELSE /\ pc' = [pc EXCEPT ![self] = "h_uwake"]
+                /\ UNCHANGED << lock, registry, cursnap, qsr, regd, sleeping, 
+                                woken, faults, sigs, myctr, insig, hcs, alive, 
+                                cs, pre, T, htmp, hg, hf, hheld, entry, i, op, 
+                                res, tmp, g, f, held, old, oldh, popped, it, 
+                                nx, st, wi, wl, ph, scan, v, ipi, ret, mret >>
 
 h_uwake(self) == /\ pc[self] = "h_uwake"
                  /\ Drained(T[self])
-                 /\ \E w \in IF {t \in Threads : sleeping[t] = "gp_futex" /\ ~woken[t]} = {} THEN {"none"}
-                             ELSE {t \in Threads : sleeping[t] = "gp_futex" /\ ~woken[t]}:
-                      /\ IF w # "none"
-                            THEN /\ woken' = [woken EXCEPT ![w] = TRUE]
-                            ELSE /\ TRUE
-                                 /\ woken' = woken
-                      /\ acc' = Ev(T[self], "fwake", "gp_futex", "-", "-", IF w = "none" THEN 0 ELSE 1)
-                 /\ pc' = [pc EXCEPT ![self] = "h_ret"]
-                 /\ UNCHANGED << mem, sb, lock, registry, cursnap, qsr, 
+                 /\ IF FutexMode = "futex"
+                       THEN /\ \E w \in IF {t \in Threads : sleeping[t] = "gp_futex" /\ ~woken[t]} = {} THEN {"none"}
+                                        ELSE {t \in Threads : sleeping[t] = "gp_futex" /\ ~woken[t]}:
+                                 /\ IF w # "none"
+                                       THEN /\ woken' = [woken EXCEPT ![w] = TRUE]
+                                       ELSE /\ TRUE
+                                            /\ woken' = woken
+                                 /\ acc' = Ev(T[self], "fwake", "gp_futex", "-", "-", IF w = "none" THEN 0 ELSE 1)
+                            /\ pc' = [pc EXCEPT ![self] = "h_ret"]
+                       ELSE /\ acc' = Ev(T[self], "fwake", "gp_futex", "-", "-", "ENOSYS")
+                            /\ pc' = [pc EXCEPT ![self] = "h_cmb"]
+                            /\ woken' = woken
+                 /\ UNCHANGED << mem, sb, lock, registry, cursnap, qsr, regd, 
                                  sleeping, faults, sigs, myctr, insig, hcs, 
                                  alive, cs, pre, T, htmp, hg, hf, hheld, entry, 
                                  i, op, res, tmp, g, f, held, old, oldh, 
                                  popped, it, nx, st, wi, wl, ph, scan, v, ipi, 
                                  ret, mret >>
 
+h_cmb(self) == /\ pc[self] = "h_cmb"
+               /\ Drained(T[self])
+               /\ acc' = Ev(T[self], "mb", "-", "-", "-", "-")
+               /\ pc' = [pc EXCEPT ![self] = "h_ret"]
+               /\ UNCHANGED << mem, sb, lock, registry, cursnap, qsr, regd, 
+                               sleeping, woken, faults, sigs, myctr, insig, 
+                               hcs, alive, cs, pre, T, htmp, hg, hf, hheld, 
+                               entry, i, op, res, tmp, g, f, held, old, oldh, 
+                               popped, it, nx, st, wi, wl, ph, scan, v, ipi, 
+                               ret, mret >>
+
 h_unest(self) == /\ pc[self] = "h_unest"
                  /\ IF TSO
-                       THEN /\ sb' = [sb EXCEPT ![T[self]] = Append(sb[T[self]], <<(Rctr(T[self])), (htmp[self] - 1)>>)]
+                       THEN /\ ~SBBlock \/ Len(sb[T[self]]) < SBMax
+                            /\ sb' = [sb EXCEPT ![T[self]] = Append(sb[T[self]], <<(Rctr(T[self])), (htmp[self] - 1)>>)]
                             /\ mem' = mem
                        ELSE /\ mem' = [mem EXCEPT ![(Rctr(T[self]))] = htmp[self] - 1]
                             /\ sb' = sb
@@ -676,31 +774,32 @@ h_unest(self) == /\ pc[self] = "h_unest"
                  /\ myctr' = [myctr EXCEPT ![T[self]] = htmp[self] - 1]
                  /\ hheld' = [hheld EXCEPT ![self] = NULL]
                  /\ pc' = [pc EXCEPT ![self] = "h_ret"]
-                 /\ UNCHANGED << lock, registry, cursnap, qsr, sleeping, woken, 
-                                 faults, sigs, insig, hcs, alive, cs, pre, T, 
-                                 htmp, hg, hf, entry, i, op, res, tmp, g, f, 
-                                 held, old, oldh, popped, it, nx, st, wi, wl, 
-                                 ph, scan, v, ipi, ret, mret >>
+                 /\ UNCHANGED << lock, registry, cursnap, qsr, regd, sleeping, 
+                                 woken, faults, sigs, insig, hcs, alive, cs, 
+                                 pre, T, htmp, hg, hf, entry, i, op, res, tmp, 
+                                 g, f, held, old, oldh, popped, it, nx, st, wi, 
+                                 wl, ph, scan, v, ipi, ret, mret >>
 
 h_ret(self) == /\ pc[self] = "h_ret"
                /\ Assert(Nest(myctr[T[self]]) = Nest(entry[self]) /\ (Nest(entry[self]) # 0 => myctr[T[self]] = entry[self]), 
-                         "Failure of assertion at line 142, column 11.")
+                         "Failure of assertion at line 166, column 11.")
                /\ Drained(T[self])
                /\ insig' = [insig EXCEPT ![T[self]] = FALSE]
                /\ acc' = Ev(T[self], "sig_exit", "-", "-", "-", "-")
                /\ pc' = [pc EXCEPT ![self] = "h_idle"]
-               /\ UNCHANGED << mem, sb, lock, registry, cursnap, qsr, sleeping, 
-                               woken, faults, sigs, myctr, hcs, alive, cs, pre, 
-                               T, htmp, hg, hf, hheld, entry, i, op, res, tmp, 
-                               g, f, held, old, oldh, popped, it, nx, st, wi, 
-                               wl, ph, scan, v, ipi, ret, mret >>
+               /\ UNCHANGED << mem, sb, lock, registry, cursnap, qsr, regd, 
+                               sleeping, woken, faults, sigs, myctr, hcs, 
+                               alive, cs, pre, T, htmp, hg, hf, hheld, entry, 
+                               i, op, res, tmp, g, f, held, old, oldh, popped, 
+                               it, nx, st, wi, wl, ph, scan, v, ipi, ret, mret >>
 
 sig(self) == h_idle(self) \/ h_ltop(self) \/ h_lld(self) \/ h_lst(self)
                 \/ h_lmb(self) \/ h_lin(self) \/ h_lnest(self)
                 \/ h_deref(self) \/ h_use(self) \/ h_utop(self)
                 \/ h_uout(self) \/ h_umb1(self) \/ h_ust(self)
                 \/ h_umb2(self) \/ h_uldf(self) \/ h_ustf(self)
-                \/ h_uwake(self) \/ h_unest(self) \/ h_ret(self)
+                \/ h_uwake(self) \/ h_cmb(self) \/ h_unest(self)
+                \/ h_ret(self)
 
 t_top(self) == /\ pc[self] = "t_top"
                /\ IF i[self] <= Len(Prog[self])
@@ -710,10 +809,11 @@ t_top(self) == /\ pc[self] = "t_top"
                      ELSE /\ pc' = [pc EXCEPT ![self] = "t_end"]
                           /\ UNCHANGED << op, res >>
                /\ UNCHANGED << mem, sb, lock, acc, registry, cursnap, qsr, 
-                               sleeping, woken, faults, sigs, myctr, insig, 
-                               hcs, alive, cs, pre, T, htmp, hg, hf, hheld, 
-                               entry, i, tmp, g, f, held, old, oldh, popped, 
-                               it, nx, st, wi, wl, ph, scan, v, ipi, ret, mret >>
+                               regd, sleeping, woken, faults, sigs, myctr, 
+                               insig, hcs, alive, cs, pre, T, htmp, hg, hf, 
+                               hheld, entry, i, tmp, g, f, held, old, oldh, 
+                               popped, it, nx, st, wi, wl, ph, scan, v, ipi, 
+                               ret, mret >>
 
 t_disp(self) == /\ pc[self] = "t_disp"
                 /\ IF op[self].op = "reg"
@@ -738,7 +838,7 @@ t_disp(self) == /\ pc[self] = "t_disp"
                                                                                        old >>
                                                                   ELSE /\ IF op[self].op = "use"
                                                                              THEN /\ Assert(held[self] = NULL \/ alive[held[self]], 
-                                                                                            "Failure of assertion at line 163, column 37.")
+                                                                                            "Failure of assertion at line 187, column 37.")
                                                                                   /\ pc' = [pc EXCEPT ![self] = "t_ret"]
                                                                                   /\ UNCHANGED << alive, 
                                                                                                   res, 
@@ -763,24 +863,29 @@ t_disp(self) == /\ pc[self] = "t_disp"
                                                                                                                                    old >>
                                                                                                         /\ pc' = [pc EXCEPT ![self] = "t_ret"]
                 /\ UNCHANGED << mem, sb, lock, acc, registry, cursnap, qsr, 
-                                sleeping, woken, faults, sigs, myctr, insig, 
-                                hcs, cs, pre, T, htmp, hg, hf, hheld, entry, i, 
-                                op, tmp, g, f, held, oldh, popped, it, nx, st, 
-                                wi, wl, ph, scan, v, ipi, ret, mret >>
+                                regd, sleeping, woken, faults, sigs, myctr, 
+                                insig, hcs, cs, pre, T, htmp, hg, hf, hheld, 
+                                entry, i, op, tmp, g, f, held, oldh, popped, 
+                                it, nx, st, wi, wl, ph, scan, v, ipi, ret, 
+                                mret >>
 
 g_lock(self) == /\ pc[self] = "g_lock"
+                /\ Assert(self \notin regd /\ Nest(myctr[self]) = 0, 
+                          "Failure of assertion at line 193, column 11.")
                 /\ Drained(self) /\ lock["registry_lock"] = "free"
                 /\ lock' = [lock EXCEPT !["registry_lock"] = self]
                 /\ acc' = Ev(self, "lock", "registry_lock", "-", "-", "-")
                 /\ pc' = [pc EXCEPT ![self] = "g_add"]
-                /\ UNCHANGED << mem, sb, registry, cursnap, qsr, sleeping, 
-                                woken, faults, sigs, myctr, insig, hcs, alive, 
-                                cs, pre, T, htmp, hg, hf, hheld, entry, i, op, 
-                                res, tmp, g, f, held, old, oldh, popped, it, 
-                                nx, st, wi, wl, ph, scan, v, ipi, ret, mret >>
+                /\ UNCHANGED << mem, sb, registry, cursnap, qsr, regd, 
+                                sleeping, woken, faults, sigs, myctr, insig, 
+                                hcs, alive, cs, pre, T, htmp, hg, hf, hheld, 
+                                entry, i, op, res, tmp, g, f, held, old, oldh, 
+                                popped, it, nx, st, wi, wl, ph, scan, v, ipi, 
+                                ret, mret >>
 
 g_add(self) == /\ pc[self] = "g_add"
-               /\ registry' = (registry \cup {self})
+               /\ /\ regd' = (regd \cup {self})
+                  /\ registry' = (registry \cup {self})
                /\ pc' = [pc EXCEPT ![self] = "g_unl"]
                /\ UNCHANGED << mem, sb, lock, acc, cursnap, qsr, sleeping, 
                                woken, faults, sigs, myctr, insig, hcs, alive, 
@@ -793,26 +898,30 @@ g_unl(self) == /\ pc[self] = "g_unl"
                /\ lock' = [lock EXCEPT !["registry_lock"] = "free"]
                /\ acc' = Ev(self, "unlock", "registry_lock", "-", "-", "-")
                /\ pc' = [pc EXCEPT ![self] = "t_ret"]
-               /\ UNCHANGED << mem, sb, registry, cursnap, qsr, sleeping, 
+               /\ UNCHANGED << mem, sb, registry, cursnap, qsr, regd, sleeping, 
                                woken, faults, sigs, myctr, insig, hcs, alive, 
                                cs, pre, T, htmp, hg, hf, hheld, entry, i, op, 
                                res, tmp, g, f, held, old, oldh, popped, it, nx, 
                                st, wi, wl, ph, scan, v, ipi, ret, mret >>
 
 x_lock(self) == /\ pc[self] = "x_lock"
+                /\ Assert(self \in regd /\ Nest(myctr[self]) = 0, 
+                          "Failure of assertion at line 198, column 11.")
                 /\ Drained(self) /\ lock["registry_lock"] = "free"
                 /\ lock' = [lock EXCEPT !["registry_lock"] = self]
                 /\ acc' = Ev(self, "lock", "registry_lock", "-", "-", "-")
                 /\ pc' = [pc EXCEPT ![self] = "x_del"]
-                /\ UNCHANGED << mem, sb, registry, cursnap, qsr, sleeping, 
-                                woken, faults, sigs, myctr, insig, hcs, alive, 
-                                cs, pre, T, htmp, hg, hf, hheld, entry, i, op, 
-                                res, tmp, g, f, held, old, oldh, popped, it, 
-                                nx, st, wi, wl, ph, scan, v, ipi, ret, mret >>
+                /\ UNCHANGED << mem, sb, registry, cursnap, qsr, regd, 
+                                sleeping, woken, faults, sigs, myctr, insig, 
+                                hcs, alive, cs, pre, T, htmp, hg, hf, hheld, 
+                                entry, i, op, res, tmp, g, f, held, old, oldh, 
+                                popped, it, nx, st, wi, wl, ph, scan, v, ipi, 
+                                ret, mret >>
 
 x_del(self) == /\ pc[self] = "x_del"
                /\ /\ cursnap' = cursnap \ {self}
                   /\ qsr' = qsr \ {self}
+                  /\ regd' = regd \ {self}
                   /\ registry' = registry \ {self}
                /\ pc' = [pc EXCEPT ![self] = "x_unl"]
                /\ UNCHANGED << mem, sb, lock, acc, sleeping, woken, faults, 
@@ -826,118 +935,126 @@ x_unl(self) == /\ pc[self] = "x_unl"
                /\ lock' = [lock EXCEPT !["registry_lock"] = "free"]
                /\ acc' = Ev(self, "unlock", "registry_lock", "-", "-", "-")
                /\ pc' = [pc EXCEPT ![self] = "t_ret"]
-               /\ UNCHANGED << mem, sb, registry, cursnap, qsr, sleeping, 
+               /\ UNCHANGED << mem, sb, registry, cursnap, qsr, regd, sleeping, 
                                woken, faults, sigs, myctr, insig, hcs, alive, 
                                cs, pre, T, htmp, hg, hf, hheld, entry, i, op, 
                                res, tmp, g, f, held, old, oldh, popped, it, nx, 
                                st, wi, wl, ph, scan, v, ipi, ret, mret >>
 
 rl_top(self) == /\ pc[self] = "rl_top"
+                /\ Assert(self \in regd, 
+                          "Failure of assertion at line 206, column 11.")
                 /\ tmp' = [tmp EXCEPT ![self] = myctr[self]]
                 /\ IF Nest(myctr[self]) # 0
                       THEN /\ pc' = [pc EXCEPT ![self] = "rl_nest"]
                       ELSE /\ pc' = [pc EXCEPT ![self] = "rl_ld"]
                 /\ UNCHANGED << mem, sb, lock, acc, registry, cursnap, qsr, 
-                                sleeping, woken, faults, sigs, myctr, insig, 
-                                hcs, alive, cs, pre, T, htmp, hg, hf, hheld, 
-                                entry, i, op, res, g, f, held, old, oldh, 
-                                popped, it, nx, st, wi, wl, ph, scan, v, ipi, 
-                                ret, mret >>
+                                regd, sleeping, woken, faults, sigs, myctr, 
+                                insig, hcs, alive, cs, pre, T, htmp, hg, hf, 
+                                hheld, entry, i, op, res, g, f, held, old, 
+                                oldh, popped, it, nx, st, wi, wl, ph, scan, v, 
+                                ipi, ret, mret >>
 
 rl_ld(self) == /\ pc[self] = "rl_ld"
                /\ g' = [g EXCEPT ![self] = Rd(self, "gp_ctr")]
                /\ acc' = Ev(self, "ld", "gp_ctr", "-", "-", Rd(self, "gp_ctr"))
                /\ pc' = [pc EXCEPT ![self] = "rl_st"]
-               /\ UNCHANGED << mem, sb, lock, registry, cursnap, qsr, sleeping, 
-                               woken, faults, sigs, myctr, insig, hcs, alive, 
-                               cs, pre, T, htmp, hg, hf, hheld, entry, i, op, 
-                               res, tmp, f, held, old, oldh, popped, it, nx, 
-                               st, wi, wl, ph, scan, v, ipi, ret, mret >>
+               /\ UNCHANGED << mem, sb, lock, registry, cursnap, qsr, regd, 
+                               sleeping, woken, faults, sigs, myctr, insig, 
+                               hcs, alive, cs, pre, T, htmp, hg, hf, hheld, 
+                               entry, i, op, res, tmp, f, held, old, oldh, 
+                               popped, it, nx, st, wi, wl, ph, scan, v, ipi, 
+                               ret, mret >>
 
 rl_st(self) == /\ pc[self] = "rl_st"
                /\ IF TSO
-                     THEN /\ sb' = [sb EXCEPT ![self] = Append(sb[self], <<(Rctr(self)), g[self]>>)]
+                     THEN /\ ~SBBlock \/ Len(sb[self]) < SBMax
+                          /\ sb' = [sb EXCEPT ![self] = Append(sb[self], <<(Rctr(self)), g[self]>>)]
                           /\ mem' = mem
                      ELSE /\ mem' = [mem EXCEPT ![(Rctr(self))] = g[self]]
                           /\ sb' = sb
                /\ acc' = Ev(self, "st", (Rctr(self)), g[self], "-", "-")
                /\ myctr' = [myctr EXCEPT ![self] = g[self]]
                /\ pc' = [pc EXCEPT ![self] = "rl_mb"]
-               /\ UNCHANGED << lock, registry, cursnap, qsr, sleeping, woken, 
-                               faults, sigs, insig, hcs, alive, cs, pre, T, 
-                               htmp, hg, hf, hheld, entry, i, op, res, tmp, g, 
-                               f, held, old, oldh, popped, it, nx, st, wi, wl, 
-                               ph, scan, v, ipi, ret, mret >>
+               /\ UNCHANGED << lock, registry, cursnap, qsr, regd, sleeping, 
+                               woken, faults, sigs, insig, hcs, alive, cs, pre, 
+                               T, htmp, hg, hf, hheld, entry, i, op, res, tmp, 
+                               g, f, held, old, oldh, popped, it, nx, st, wi, 
+                               wl, ph, scan, v, ipi, ret, mret >>
 
 rl_mb(self) == /\ pc[self] = "rl_mb"
-               /\ IF ReaderFence
+               /\ IF ReaderFence /\ "rl_mb" \notin Skip
                      THEN /\ Drained(self)
                           /\ acc' = Ev(self, "mb", "-", "-", "-", "-")
                      ELSE /\ TRUE
                           /\ acc' = acc
                /\ pc' = [pc EXCEPT ![self] = "rl_in"]
-               /\ UNCHANGED << mem, sb, lock, registry, cursnap, qsr, sleeping, 
-                               woken, faults, sigs, myctr, insig, hcs, alive, 
-                               cs, pre, T, htmp, hg, hf, hheld, entry, i, op, 
-                               res, tmp, g, f, held, old, oldh, popped, it, nx, 
-                               st, wi, wl, ph, scan, v, ipi, ret, mret >>
+               /\ UNCHANGED << mem, sb, lock, registry, cursnap, qsr, regd, 
+                               sleeping, woken, faults, sigs, myctr, insig, 
+                               hcs, alive, cs, pre, T, htmp, hg, hf, hheld, 
+                               entry, i, op, res, tmp, g, f, held, old, oldh, 
+                               popped, it, nx, st, wi, wl, ph, scan, v, ipi, 
+                               ret, mret >>
 
 rl_in(self) == /\ pc[self] = "rl_in"
                /\ cs' = [cs EXCEPT ![self] = i[self]]
                /\ pc' = [pc EXCEPT ![self] = "t_ret"]
                /\ UNCHANGED << mem, sb, lock, acc, registry, cursnap, qsr, 
-                               sleeping, woken, faults, sigs, myctr, insig, 
-                               hcs, alive, pre, T, htmp, hg, hf, hheld, entry, 
-                               i, op, res, tmp, g, f, held, old, oldh, popped, 
-                               it, nx, st, wi, wl, ph, scan, v, ipi, ret, mret >>
+                               regd, sleeping, woken, faults, sigs, myctr, 
+                               insig, hcs, alive, pre, T, htmp, hg, hf, hheld, 
+                               entry, i, op, res, tmp, g, f, held, old, oldh, 
+                               popped, it, nx, st, wi, wl, ph, scan, v, ipi, 
+                               ret, mret >>
 
 rl_nest(self) == /\ pc[self] = "rl_nest"
                  /\ IF TSO
-                       THEN /\ sb' = [sb EXCEPT ![self] = Append(sb[self], <<(Rctr(self)), (tmp[self] + 1)>>)]
+                       THEN /\ ~SBBlock \/ Len(sb[self]) < SBMax
+                            /\ sb' = [sb EXCEPT ![self] = Append(sb[self], <<(Rctr(self)), (tmp[self] + 1)>>)]
                             /\ mem' = mem
                        ELSE /\ mem' = [mem EXCEPT ![(Rctr(self))] = tmp[self] + 1]
                             /\ sb' = sb
                  /\ acc' = Ev(self, "st", (Rctr(self)), (tmp[self] + 1), "-", "-")
                  /\ myctr' = [myctr EXCEPT ![self] = tmp[self] + 1]
                  /\ pc' = [pc EXCEPT ![self] = "t_ret"]
-                 /\ UNCHANGED << lock, registry, cursnap, qsr, sleeping, woken, 
-                                 faults, sigs, insig, hcs, alive, cs, pre, T, 
-                                 htmp, hg, hf, hheld, entry, i, op, res, tmp, 
-                                 g, f, held, old, oldh, popped, it, nx, st, wi, 
-                                 wl, ph, scan, v, ipi, ret, mret >>
+                 /\ UNCHANGED << lock, registry, cursnap, qsr, regd, sleeping, 
+                                 woken, faults, sigs, insig, hcs, alive, cs, 
+                                 pre, T, htmp, hg, hf, hheld, entry, i, op, 
+                                 res, tmp, g, f, held, old, oldh, popped, it, 
+                                 nx, st, wi, wl, ph, scan, v, ipi, ret, mret >>
 
 ru_top(self) == /\ pc[self] = "ru_top"
                 /\ Assert(held[self] = NULL \/ alive[held[self]], 
-                          "Failure of assertion at line 190, column 11.")
+                          "Failure of assertion at line 218, column 11.")
                 /\ tmp' = [tmp EXCEPT ![self] = myctr[self]]
                 /\ IF Nest(myctr[self]) # 1
                       THEN /\ pc' = [pc EXCEPT ![self] = "ru_nest"]
                       ELSE /\ pc' = [pc EXCEPT ![self] = "ru_out"]
                 /\ UNCHANGED << mem, sb, lock, acc, registry, cursnap, qsr, 
-                                sleeping, woken, faults, sigs, myctr, insig, 
-                                hcs, alive, cs, pre, T, htmp, hg, hf, hheld, 
-                                entry, i, op, res, g, f, held, old, oldh, 
-                                popped, it, nx, st, wi, wl, ph, scan, v, ipi, 
-                                ret, mret >>
+                                regd, sleeping, woken, faults, sigs, myctr, 
+                                insig, hcs, alive, cs, pre, T, htmp, hg, hf, 
+                                hheld, entry, i, op, res, g, f, held, old, 
+                                oldh, popped, it, nx, st, wi, wl, ph, scan, v, 
+                                ipi, ret, mret >>
 
 ru_out(self) == /\ pc[self] = "ru_out"
                 /\ cs' = [cs EXCEPT ![self] = 0]
                 /\ held' = [held EXCEPT ![self] = NULL]
                 /\ pc' = [pc EXCEPT ![self] = "ru_mb1"]
                 /\ UNCHANGED << mem, sb, lock, acc, registry, cursnap, qsr, 
-                                sleeping, woken, faults, sigs, myctr, insig, 
-                                hcs, alive, pre, T, htmp, hg, hf, hheld, entry, 
-                                i, op, res, tmp, g, f, old, oldh, popped, it, 
-                                nx, st, wi, wl, ph, scan, v, ipi, ret, mret >>
+                                regd, sleeping, woken, faults, sigs, myctr, 
+                                insig, hcs, alive, pre, T, htmp, hg, hf, hheld, 
+                                entry, i, op, res, tmp, g, f, old, oldh, 
+                                popped, it, nx, st, wi, wl, ph, scan, v, ipi, 
+                                ret, mret >>
 
 ru_mb1(self) == /\ pc[self] = "ru_mb1"
-                /\ IF Flavor = "memb" /\ ReaderFence
+                /\ IF Flavor = "memb" /\ ReaderFence /\ "ru_mb1" \notin Skip
                       THEN /\ Drained(self)
                            /\ acc' = Ev(self, "mb", "-", "-", "-", "-")
                       ELSE /\ TRUE
                            /\ acc' = acc
                 /\ pc' = [pc EXCEPT ![self] = "ru_st"]
-                /\ UNCHANGED << mem, sb, lock, registry, cursnap, qsr, 
+                /\ UNCHANGED << mem, sb, lock, registry, cursnap, qsr, regd, 
                                 sleeping, woken, faults, sigs, myctr, insig, 
                                 hcs, alive, cs, pre, T, htmp, hg, hf, hheld, 
                                 entry, i, op, res, tmp, g, f, held, old, oldh, 
@@ -945,33 +1062,34 @@ ru_mb1(self) == /\ pc[self] = "ru_mb1"
                                 ret, mret >>
 
 ru_st(self) == /\ pc[self] = "ru_st"
-               /\ IF Flavor = "mb"
+               /\ IF Flavor = "mb" /\ "ru_st" \notin Weak
                      THEN /\ Drained(self)
                           /\ mem' = [mem EXCEPT ![(Rctr(self))] = tmp[self] - 1]
                           /\ acc' = Ev(self, "st", (Rctr(self)), (tmp[self] - 1), "-", "-")
                           /\ sb' = sb
                      ELSE /\ IF TSO
-                                THEN /\ sb' = [sb EXCEPT ![self] = Append(sb[self], <<(Rctr(self)), (tmp[self] - 1)>>)]
+                                THEN /\ ~SBBlock \/ Len(sb[self]) < SBMax
+                                     /\ sb' = [sb EXCEPT ![self] = Append(sb[self], <<(Rctr(self)), (tmp[self] - 1)>>)]
                                      /\ mem' = mem
                                 ELSE /\ mem' = [mem EXCEPT ![(Rctr(self))] = tmp[self] - 1]
                                      /\ sb' = sb
                           /\ acc' = Ev(self, "st", (Rctr(self)), (tmp[self] - 1), "-", "-")
                /\ myctr' = [myctr EXCEPT ![self] = tmp[self] - 1]
                /\ pc' = [pc EXCEPT ![self] = "ru_mb2"]
-               /\ UNCHANGED << lock, registry, cursnap, qsr, sleeping, woken, 
-                               faults, sigs, insig, hcs, alive, cs, pre, T, 
-                               htmp, hg, hf, hheld, entry, i, op, res, tmp, g, 
-                               f, held, old, oldh, popped, it, nx, st, wi, wl, 
-                               ph, scan, v, ipi, ret, mret >>
+               /\ UNCHANGED << lock, registry, cursnap, qsr, regd, sleeping, 
+                               woken, faults, sigs, insig, hcs, alive, cs, pre, 
+                               T, htmp, hg, hf, hheld, entry, i, op, res, tmp, 
+                               g, f, held, old, oldh, popped, it, nx, st, wi, 
+                               wl, ph, scan, v, ipi, ret, mret >>
 
 ru_mb2(self) == /\ pc[self] = "ru_mb2"
-                /\ IF Flavor = "memb" /\ ReaderFence
+                /\ IF Flavor = "memb" /\ ReaderFence /\ "ru_mb2" \notin Skip
                       THEN /\ Drained(self)
                            /\ acc' = Ev(self, "mb", "-", "-", "-", "-")
                       ELSE /\ TRUE
                            /\ acc' = acc
                 /\ pc' = [pc EXCEPT ![self] = "ru_ldf"]
-                /\ UNCHANGED << mem, sb, lock, registry, cursnap, qsr, 
+                /\ UNCHANGED << mem, sb, lock, registry, cursnap, qsr, regd, 
                                 sleeping, woken, faults, sigs, myctr, insig, 
                                 hcs, alive, cs, pre, T, htmp, hg, hf, hheld, 
                                 entry, i, op, res, tmp, g, f, held, old, oldh, 
@@ -984,7 +1102,7 @@ ru_ldf(self) == /\ pc[self] = "ru_ldf"
                 /\ IF f'[self] # -1
                       THEN /\ pc' = [pc EXCEPT ![self] = "t_ret"]
                       ELSE /\ pc' = [pc EXCEPT ![self] = "ru_stf"]
-                /\ UNCHANGED << mem, sb, lock, registry, cursnap, qsr, 
+                /\ UNCHANGED << mem, sb, lock, registry, cursnap, qsr, regd, 
                                 sleeping, woken, faults, sigs, myctr, insig, 
                                 hcs, alive, cs, pre, T, htmp, hg, hf, hheld, 
                                 entry, i, op, res, tmp, g, held, old, oldh, 
@@ -993,60 +1111,79 @@ ru_ldf(self) == /\ pc[self] = "ru_ldf"
 
 ru_stf(self) == /\ pc[self] = "ru_stf"
                 /\ IF TSO
-                      THEN /\ sb' = [sb EXCEPT ![self] = Append(sb[self], <<"gp_futex", 0>>)]
+                      THEN /\ ~SBBlock \/ Len(sb[self]) < SBMax
+                           /\ sb' = [sb EXCEPT ![self] = Append(sb[self], <<"gp_futex", 0>>)]
                            /\ mem' = mem
                       ELSE /\ mem' = [mem EXCEPT !["gp_futex"] = 0]
                            /\ sb' = sb
                 /\ acc' = Ev(self, "st", "gp_futex", 0, "-", "-")
-                /\ pc' = [pc EXCEPT ![self] = "ru_wake"]
-                /\ UNCHANGED << lock, registry, cursnap, qsr, sleeping, woken, 
-                                faults, sigs, myctr, insig, hcs, alive, cs, 
-                                pre, T, htmp, hg, hf, hheld, entry, i, op, res, 
-                                tmp, g, f, held, old, oldh, popped, it, nx, st, 
-                                wi, wl, ph, scan, v, ipi, ret, mret >>
+                /\ IF FutexMode = "compat"
+                      THEN /\ pc' = [pc EXCEPT ![self] = "ru_cmb"]
+                      ELSE /\ pc' = [pc EXCEPT ![self] = "ru_wake"]
+                /\ UNCHANGED << lock, registry, cursnap, qsr, regd, sleeping, 
+                                woken, faults, sigs, myctr, insig, hcs, alive, 
+                                cs, pre, T, htmp, hg, hf, hheld, entry, i, op, 
+                                res, tmp, g, f, held, old, oldh, popped, it, 
+                                nx, st, wi, wl, ph, scan, v, ipi, ret, mret >>
 
 ru_wake(self) == /\ pc[self] = "ru_wake"
                  /\ Drained(self)
-                 /\ \E w \in IF {t \in Threads : sleeping[t] = "gp_futex" /\ ~woken[t]} = {} THEN {"none"}
-                             ELSE {t \in Threads : sleeping[t] = "gp_futex" /\ ~woken[t]}:
-                      /\ IF w # "none"
-                            THEN /\ woken' = [woken EXCEPT ![w] = TRUE]
-                            ELSE /\ TRUE
-                                 /\ woken' = woken
-                      /\ acc' = Ev(self, "fwake", "gp_futex", "-", "-", IF w = "none" THEN 0 ELSE 1)
-                 /\ pc' = [pc EXCEPT ![self] = "t_ret"]
-                 /\ UNCHANGED << mem, sb, lock, registry, cursnap, qsr, 
+                 /\ IF FutexMode = "futex"
+                       THEN /\ \E w \in IF {t \in Threads : sleeping[t] = "gp_futex" /\ ~woken[t]} = {} THEN {"none"}
+                                        ELSE {t \in Threads : sleeping[t] = "gp_futex" /\ ~woken[t]}:
+                                 /\ IF w # "none"
+                                       THEN /\ woken' = [woken EXCEPT ![w] = TRUE]
+                                       ELSE /\ TRUE
+                                            /\ woken' = woken
+                                 /\ acc' = Ev(self, "fwake", "gp_futex", "-", "-", IF w = "none" THEN 0 ELSE 1)
+                            /\ pc' = [pc EXCEPT ![self] = "t_ret"]
+                       ELSE /\ acc' = Ev(self, "fwake", "gp_futex", "-", "-", "ENOSYS")
+                            /\ pc' = [pc EXCEPT ![self] = "ru_cmb"]
+                            /\ woken' = woken
+                 /\ UNCHANGED << mem, sb, lock, registry, cursnap, qsr, regd, 
                                  sleeping, faults, sigs, myctr, insig, hcs, 
                                  alive, cs, pre, T, htmp, hg, hf, hheld, entry, 
                                  i, op, res, tmp, g, f, held, old, oldh, 
                                  popped, it, nx, st, wi, wl, ph, scan, v, ipi, 
                                  ret, mret >>
 
+ru_cmb(self) == /\ pc[self] = "ru_cmb"
+                /\ Drained(self)
+                /\ acc' = Ev(self, "mb", "-", "-", "-", "-")
+                /\ pc' = [pc EXCEPT ![self] = "t_ret"]
+                /\ UNCHANGED << mem, sb, lock, registry, cursnap, qsr, regd, 
+                                sleeping, woken, faults, sigs, myctr, insig, 
+                                hcs, alive, cs, pre, T, htmp, hg, hf, hheld, 
+                                entry, i, op, res, tmp, g, f, held, old, oldh, 
+                                popped, it, nx, st, wi, wl, ph, scan, v, ipi, 
+                                ret, mret >>
+
 ru_nest(self) == /\ pc[self] = "ru_nest"
                  /\ IF TSO
-                       THEN /\ sb' = [sb EXCEPT ![self] = Append(sb[self], <<(Rctr(self)), (tmp[self] - 1)>>)]
+                       THEN /\ ~SBBlock \/ Len(sb[self]) < SBMax
+                            /\ sb' = [sb EXCEPT ![self] = Append(sb[self], <<(Rctr(self)), (tmp[self] - 1)>>)]
                             /\ mem' = mem
                        ELSE /\ mem' = [mem EXCEPT ![(Rctr(self))] = tmp[self] - 1]
                             /\ sb' = sb
                  /\ acc' = Ev(self, "st", (Rctr(self)), (tmp[self] - 1), "-", "-")
                  /\ myctr' = [myctr EXCEPT ![self] = tmp[self] - 1]
                  /\ pc' = [pc EXCEPT ![self] = "t_ret"]
-                 /\ UNCHANGED << lock, registry, cursnap, qsr, sleeping, woken, 
-                                 faults, sigs, insig, hcs, alive, cs, pre, T, 
-                                 htmp, hg, hf, hheld, entry, i, op, res, tmp, 
-                                 g, f, held, old, oldh, popped, it, nx, st, wi, 
-                                 wl, ph, scan, v, ipi, ret, mret >>
+                 /\ UNCHANGED << lock, registry, cursnap, qsr, regd, sleeping, 
+                                 woken, faults, sigs, insig, hcs, alive, cs, 
+                                 pre, T, htmp, hg, hf, hheld, entry, i, op, 
+                                 res, tmp, g, f, held, old, oldh, popped, it, 
+                                 nx, st, wi, wl, ph, scan, v, ipi, ret, mret >>
 
 dr_ld(self) == /\ pc[self] = "dr_ld"
                /\ held' = [held EXCEPT ![self] = Rd(self, "gptr")]
                /\ acc' = Ev(self, "ld", "gptr", "-", "-", Rd(self, "gptr"))
                /\ res' = [res EXCEPT ![self] = held'[self]]
                /\ pc' = [pc EXCEPT ![self] = "t_ret"]
-               /\ UNCHANGED << mem, sb, lock, registry, cursnap, qsr, sleeping, 
-                               woken, faults, sigs, myctr, insig, hcs, alive, 
-                               cs, pre, T, htmp, hg, hf, hheld, entry, i, op, 
-                               tmp, g, f, old, oldh, popped, it, nx, st, wi, 
-                               wl, ph, scan, v, ipi, ret, mret >>
+               /\ UNCHANGED << mem, sb, lock, registry, cursnap, qsr, regd, 
+                               sleeping, woken, faults, sigs, myctr, insig, 
+                               hcs, alive, cs, pre, T, htmp, hg, hf, hheld, 
+                               entry, i, op, tmp, g, f, old, oldh, popped, it, 
+                               nx, st, wi, wl, ph, scan, v, ipi, ret, mret >>
 
 p_xchg(self) == /\ pc[self] = "p_xchg"
                 /\ Drained(self)
@@ -1055,31 +1192,36 @@ p_xchg(self) == /\ pc[self] = "p_xchg"
                 /\ acc' = Ev(self, "xchg", "gptr", (op[self].o), "-", old'[self])
                 /\ res' = [res EXCEPT ![self] = old'[self]]
                 /\ pc' = [pc EXCEPT ![self] = "t_ret"]
-                /\ UNCHANGED << sb, lock, registry, cursnap, qsr, sleeping, 
-                                woken, faults, sigs, myctr, insig, hcs, alive, 
-                                cs, pre, T, htmp, hg, hf, hheld, entry, i, op, 
-                                tmp, g, f, held, oldh, popped, it, nx, st, wi, 
-                                wl, ph, scan, v, ipi, ret, mret >>
+                /\ UNCHANGED << sb, lock, registry, cursnap, qsr, regd, 
+                                sleeping, woken, faults, sigs, myctr, insig, 
+                                hcs, alive, cs, pre, T, htmp, hg, hf, hheld, 
+                                entry, i, op, tmp, g, f, held, oldh, popped, 
+                                it, nx, st, wi, wl, ph, scan, v, ipi, ret, 
+                                mret >>
 
 s_call(self) == /\ pc[self] = "s_call"
                 /\ pre' = [pre EXCEPT ![self] = OpenCS]
                 /\ pc' = [pc EXCEPT ![self] = "s_mb0"]
                 /\ UNCHANGED << mem, sb, lock, acc, registry, cursnap, qsr, 
-                                sleeping, woken, faults, sigs, myctr, insig, 
-                                hcs, alive, cs, T, htmp, hg, hf, hheld, entry, 
-                                i, op, res, tmp, g, f, held, old, oldh, popped, 
-                                it, nx, st, wi, wl, ph, scan, v, ipi, ret, 
-                                mret >>
+                                regd, sleeping, woken, faults, sigs, myctr, 
+                                insig, hcs, alive, cs, T, htmp, hg, hf, hheld, 
+                                entry, i, op, res, tmp, g, f, held, old, oldh, 
+                                popped, it, nx, st, wi, wl, ph, scan, v, ipi, 
+                                ret, mret >>
 
 s_mb0(self) == /\ pc[self] = "s_mb0"
-               /\ Drained(self)
-               /\ acc' = Ev(self, "mb", "-", "-", "-", "-")
+               /\ IF "s_mb0" \notin Skip
+                     THEN /\ Drained(self)
+                          /\ acc' = Ev(self, "mb", "-", "-", "-", "-")
+                     ELSE /\ TRUE
+                          /\ acc' = acc
                /\ pc' = [pc EXCEPT ![self] = "s_push"]
-               /\ UNCHANGED << mem, sb, lock, registry, cursnap, qsr, sleeping, 
-                               woken, faults, sigs, myctr, insig, hcs, alive, 
-                               cs, pre, T, htmp, hg, hf, hheld, entry, i, op, 
-                               res, tmp, g, f, held, old, oldh, popped, it, nx, 
-                               st, wi, wl, ph, scan, v, ipi, ret, mret >>
+               /\ UNCHANGED << mem, sb, lock, registry, cursnap, qsr, regd, 
+                               sleeping, woken, faults, sigs, myctr, insig, 
+                               hcs, alive, cs, pre, T, htmp, hg, hf, hheld, 
+                               entry, i, op, res, tmp, g, f, held, old, oldh, 
+                               popped, it, nx, st, wi, wl, ph, scan, v, ipi, 
+                               ret, mret >>
 
 s_push(self) == /\ pc[self] = "s_push"
                 /\ Drained(self)
@@ -1087,15 +1229,17 @@ s_push(self) == /\ pc[self] = "s_push"
                 /\ mem' = [mem EXCEPT !["waiters"] = Wn(self)]
                 /\ acc' = Ev(self, "xchg", "waiters", (Wn(self)), "-", oldh'[self])
                 /\ pc' = [pc EXCEPT ![self] = "s_link"]
-                /\ UNCHANGED << sb, lock, registry, cursnap, qsr, sleeping, 
-                                woken, faults, sigs, myctr, insig, hcs, alive, 
-                                cs, pre, T, htmp, hg, hf, hheld, entry, i, op, 
-                                res, tmp, g, f, held, old, popped, it, nx, st, 
-                                wi, wl, ph, scan, v, ipi, ret, mret >>
+                /\ UNCHANGED << sb, lock, registry, cursnap, qsr, regd, 
+                                sleeping, woken, faults, sigs, myctr, insig, 
+                                hcs, alive, cs, pre, T, htmp, hg, hf, hheld, 
+                                entry, i, op, res, tmp, g, f, held, old, 
+                                popped, it, nx, st, wi, wl, ph, scan, v, ipi, 
+                                ret, mret >>
 
 s_link(self) == /\ pc[self] = "s_link"
                 /\ IF TSO
-                      THEN /\ sb' = [sb EXCEPT ![self] = Append(sb[self], <<(WnNext(Wn(self))), oldh[self]>>)]
+                      THEN /\ ~SBBlock \/ Len(sb[self]) < SBMax
+                           /\ sb' = [sb EXCEPT ![self] = Append(sb[self], <<(WnNext(Wn(self))), oldh[self]>>)]
                            /\ mem' = mem
                       ELSE /\ mem' = [mem EXCEPT ![(WnNext(Wn(self)))] = oldh[self]]
                            /\ sb' = sb
@@ -1105,36 +1249,39 @@ s_link(self) == /\ pc[self] = "s_link"
                            /\ pc' = [pc EXCEPT ![self] = "a_ld1"]
                       ELSE /\ pc' = [pc EXCEPT ![self] = "s_run"]
                            /\ wi' = wi
-                /\ UNCHANGED << lock, registry, cursnap, qsr, sleeping, woken, 
-                                faults, sigs, myctr, insig, hcs, alive, cs, 
-                                pre, T, htmp, hg, hf, hheld, entry, i, op, res, 
-                                tmp, g, f, held, old, oldh, popped, it, nx, st, 
-                                wl, ph, scan, v, ipi, ret, mret >>
+                /\ UNCHANGED << lock, registry, cursnap, qsr, regd, sleeping, 
+                                woken, faults, sigs, myctr, insig, hcs, alive, 
+                                cs, pre, T, htmp, hg, hf, hheld, entry, i, op, 
+                                res, tmp, g, f, held, old, oldh, popped, it, 
+                                nx, st, wl, ph, scan, v, ipi, ret, mret >>
 
 s_run(self) == /\ pc[self] = "s_run"
                /\ IF Tracing \/ ~TSO
                      THEN /\ Drained(self)
                           /\ mem' = [mem EXCEPT ![WnState(Wn(self))] = RUNNING]
                           /\ sb' = sb
-                     ELSE /\ sb' = [sb EXCEPT ![self] = Append(sb[self], <<WnState(Wn(self)), RUNNING>>)]
+                     ELSE /\ ~SBBlock \/ Len(sb[self]) < SBMax
+                          /\ sb' = [sb EXCEPT ![self] = Append(sb[self], <<WnState(Wn(self)), RUNNING>>)]
                           /\ mem' = mem
                /\ pc' = [pc EXCEPT ![self] = "s_gplk"]
-               /\ UNCHANGED << lock, acc, registry, cursnap, qsr, sleeping, 
-                               woken, faults, sigs, myctr, insig, hcs, alive, 
-                               cs, pre, T, htmp, hg, hf, hheld, entry, i, op, 
-                               res, tmp, g, f, held, old, oldh, popped, it, nx, 
-                               st, wi, wl, ph, scan, v, ipi, ret, mret >>
+               /\ UNCHANGED << lock, acc, registry, cursnap, qsr, regd, 
+                               sleeping, woken, faults, sigs, myctr, insig, 
+                               hcs, alive, cs, pre, T, htmp, hg, hf, hheld, 
+                               entry, i, op, res, tmp, g, f, held, old, oldh, 
+                               popped, it, nx, st, wi, wl, ph, scan, v, ipi, 
+                               ret, mret >>
 
 s_gplk(self) == /\ pc[self] = "s_gplk"
                 /\ Drained(self) /\ lock["gp_lock"] = "free"
                 /\ lock' = [lock EXCEPT !["gp_lock"] = self]
                 /\ acc' = Ev(self, "lock", "gp_lock", "-", "-", "-")
                 /\ pc' = [pc EXCEPT ![self] = "s_pop"]
-                /\ UNCHANGED << mem, sb, registry, cursnap, qsr, sleeping, 
-                                woken, faults, sigs, myctr, insig, hcs, alive, 
-                                cs, pre, T, htmp, hg, hf, hheld, entry, i, op, 
-                                res, tmp, g, f, held, old, oldh, popped, it, 
-                                nx, st, wi, wl, ph, scan, v, ipi, ret, mret >>
+                /\ UNCHANGED << mem, sb, registry, cursnap, qsr, regd, 
+                                sleeping, woken, faults, sigs, myctr, insig, 
+                                hcs, alive, cs, pre, T, htmp, hg, hf, hheld, 
+                                entry, i, op, res, tmp, g, f, held, old, oldh, 
+                                popped, it, nx, st, wi, wl, ph, scan, v, ipi, 
+                                ret, mret >>
 
 s_pop(self) == /\ pc[self] = "s_pop"
                /\ Drained(self)
@@ -1142,17 +1289,20 @@ s_pop(self) == /\ pc[self] = "s_pop"
                /\ mem' = [mem EXCEPT !["waiters"] = END]
                /\ acc' = Ev(self, "xchg", "waiters", END, "-", popped'[self])
                /\ pc' = [pc EXCEPT ![self] = "s_popmb"]
-               /\ UNCHANGED << sb, lock, registry, cursnap, qsr, sleeping, 
-                               woken, faults, sigs, myctr, insig, hcs, alive, 
-                               cs, pre, T, htmp, hg, hf, hheld, entry, i, op, 
-                               res, tmp, g, f, held, old, oldh, it, nx, st, wi, 
-                               wl, ph, scan, v, ipi, ret, mret >>
+               /\ UNCHANGED << sb, lock, registry, cursnap, qsr, regd, 
+                               sleeping, woken, faults, sigs, myctr, insig, 
+                               hcs, alive, cs, pre, T, htmp, hg, hf, hheld, 
+                               entry, i, op, res, tmp, g, f, held, old, oldh, 
+                               it, nx, st, wi, wl, ph, scan, v, ipi, ret, mret >>
 
 s_popmb(self) == /\ pc[self] = "s_popmb"
-                 /\ Drained(self)
-                 /\ acc' = Ev(self, "mb", "-", "-", "-", "-")
+                 /\ IF "s_popmb" \notin Skip
+                       THEN /\ Drained(self)
+                            /\ acc' = Ev(self, "mb", "-", "-", "-", "-")
+                       ELSE /\ TRUE
+                            /\ acc' = acc
                  /\ pc' = [pc EXCEPT ![self] = "s_rglk"]
-                 /\ UNCHANGED << mem, sb, lock, registry, cursnap, qsr, 
+                 /\ UNCHANGED << mem, sb, lock, registry, cursnap, qsr, regd, 
                                  sleeping, woken, faults, sigs, myctr, insig, 
                                  hcs, alive, cs, pre, T, htmp, hg, hf, hheld, 
                                  entry, i, op, res, tmp, g, f, held, old, oldh, 
@@ -1166,71 +1316,83 @@ s_rglk(self) == /\ pc[self] = "s_rglk"
                 /\ IF registry = {}
                       THEN /\ pc' = [pc EXCEPT ![self] = "s_out"]
                       ELSE /\ pc' = [pc EXCEPT ![self] = "s_mm1"]
-                /\ UNCHANGED << mem, sb, registry, cursnap, qsr, sleeping, 
-                                woken, faults, sigs, myctr, insig, hcs, alive, 
-                                cs, pre, T, htmp, hg, hf, hheld, entry, i, op, 
-                                res, tmp, g, f, held, old, oldh, popped, it, 
-                                nx, st, wi, wl, ph, scan, v, ipi, ret, mret >>
+                /\ UNCHANGED << mem, sb, registry, cursnap, qsr, regd, 
+                                sleeping, woken, faults, sigs, myctr, insig, 
+                                hcs, alive, cs, pre, T, htmp, hg, hf, hheld, 
+                                entry, i, op, res, tmp, g, f, held, old, oldh, 
+                                popped, it, nx, st, wi, wl, ph, scan, v, ipi, 
+                                ret, mret >>
 
 s_mm1(self) == /\ pc[self] = "s_mm1"
                /\ mret' = [mret EXCEPT ![self] = "s_p1"]
-               /\ pc' = [pc EXCEPT ![self] = "master"]
+               /\ IF "s_mm1" \in Skip
+                     THEN /\ pc' = [pc EXCEPT ![self] = "s_p1"]
+                     ELSE /\ pc' = [pc EXCEPT ![self] = "master"]
                /\ UNCHANGED << mem, sb, lock, acc, registry, cursnap, qsr, 
-                               sleeping, woken, faults, sigs, myctr, insig, 
-                               hcs, alive, cs, pre, T, htmp, hg, hf, hheld, 
-                               entry, i, op, res, tmp, g, f, held, old, oldh, 
-                               popped, it, nx, st, wi, wl, ph, scan, v, ipi, 
-                               ret >>
+                               regd, sleeping, woken, faults, sigs, myctr, 
+                               insig, hcs, alive, cs, pre, T, htmp, hg, hf, 
+                               hheld, entry, i, op, res, tmp, g, f, held, old, 
+                               oldh, popped, it, nx, st, wi, wl, ph, scan, v, 
+                               ipi, ret >>
 
 s_p1(self) == /\ pc[self] = "s_p1"
               /\ ph' = [ph EXCEPT ![self] = 1]
               /\ ret' = [ret EXCEPT ![self] = "s_mb2"]
               /\ pc' = [pc EXCEPT ![self] = "w_top"]
-              /\ UNCHANGED << mem, sb, lock, acc, registry, cursnap, qsr, 
+              /\ UNCHANGED << mem, sb, lock, acc, registry, cursnap, qsr, regd, 
                               sleeping, woken, faults, sigs, myctr, insig, hcs, 
                               alive, cs, pre, T, htmp, hg, hf, hheld, entry, i, 
                               op, res, tmp, g, f, held, old, oldh, popped, it, 
                               nx, st, wi, wl, scan, v, ipi, mret >>
 
 s_mb2(self) == /\ pc[self] = "s_mb2"
-               /\ Drained(self)
-               /\ acc' = Ev(self, "mb", "-", "-", "-", "-")
+               /\ IF "s_mb2" \notin Skip
+                     THEN /\ Drained(self)
+                          /\ acc' = Ev(self, "mb", "-", "-", "-", "-")
+                     ELSE /\ TRUE
+                          /\ acc' = acc
                /\ pc' = [pc EXCEPT ![self] = "s_flip"]
-               /\ UNCHANGED << mem, sb, lock, registry, cursnap, qsr, sleeping, 
-                               woken, faults, sigs, myctr, insig, hcs, alive, 
-                               cs, pre, T, htmp, hg, hf, hheld, entry, i, op, 
-                               res, tmp, g, f, held, old, oldh, popped, it, nx, 
-                               st, wi, wl, ph, scan, v, ipi, ret, mret >>
+               /\ UNCHANGED << mem, sb, lock, registry, cursnap, qsr, regd, 
+                               sleeping, woken, faults, sigs, myctr, insig, 
+                               hcs, alive, cs, pre, T, htmp, hg, hf, hheld, 
+                               entry, i, op, res, tmp, g, f, held, old, oldh, 
+                               popped, it, nx, st, wi, wl, ph, scan, v, ipi, 
+                               ret, mret >>
 
 s_flip(self) == /\ pc[self] = "s_flip"
                 /\ IF TSO
-                      THEN /\ sb' = [sb EXCEPT ![self] = Append(sb[self], <<"gp_ctr", (IF Ph(Rd(self, "gp_ctr")) = 0 THEN Rd(self, "gp_ctr") + PHASE ELSE Rd(self, "gp_ctr") - PHASE)>>)]
+                      THEN /\ ~SBBlock \/ Len(sb[self]) < SBMax
+                           /\ sb' = [sb EXCEPT ![self] = Append(sb[self], <<"gp_ctr", (IF Ph(Rd(self, "gp_ctr")) = 0 THEN Rd(self, "gp_ctr") + PHASE ELSE Rd(self, "gp_ctr") - PHASE)>>)]
                            /\ mem' = mem
                       ELSE /\ mem' = [mem EXCEPT !["gp_ctr"] = IF Ph(Rd(self, "gp_ctr")) = 0 THEN Rd(self, "gp_ctr") + PHASE ELSE Rd(self, "gp_ctr") - PHASE]
                            /\ sb' = sb
                 /\ acc' = Ev(self, "st", "gp_ctr", (IF Ph(Rd(self, "gp_ctr")) = 0 THEN Rd(self, "gp_ctr") + PHASE ELSE Rd(self, "gp_ctr") - PHASE), "-", "-")
                 /\ pc' = [pc EXCEPT ![self] = "s_mb3"]
-                /\ UNCHANGED << lock, registry, cursnap, qsr, sleeping, woken, 
-                                faults, sigs, myctr, insig, hcs, alive, cs, 
-                                pre, T, htmp, hg, hf, hheld, entry, i, op, res, 
-                                tmp, g, f, held, old, oldh, popped, it, nx, st, 
-                                wi, wl, ph, scan, v, ipi, ret, mret >>
+                /\ UNCHANGED << lock, registry, cursnap, qsr, regd, sleeping, 
+                                woken, faults, sigs, myctr, insig, hcs, alive, 
+                                cs, pre, T, htmp, hg, hf, hheld, entry, i, op, 
+                                res, tmp, g, f, held, old, oldh, popped, it, 
+                                nx, st, wi, wl, ph, scan, v, ipi, ret, mret >>
 
 s_mb3(self) == /\ pc[self] = "s_mb3"
-               /\ Drained(self)
-               /\ acc' = Ev(self, "mb", "-", "-", "-", "-")
+               /\ IF "s_mb3" \notin Skip
+                     THEN /\ Drained(self)
+                          /\ acc' = Ev(self, "mb", "-", "-", "-", "-")
+                     ELSE /\ TRUE
+                          /\ acc' = acc
                /\ pc' = [pc EXCEPT ![self] = "s_p2"]
-               /\ UNCHANGED << mem, sb, lock, registry, cursnap, qsr, sleeping, 
-                               woken, faults, sigs, myctr, insig, hcs, alive, 
-                               cs, pre, T, htmp, hg, hf, hheld, entry, i, op, 
-                               res, tmp, g, f, held, old, oldh, popped, it, nx, 
-                               st, wi, wl, ph, scan, v, ipi, ret, mret >>
+               /\ UNCHANGED << mem, sb, lock, registry, cursnap, qsr, regd, 
+                               sleeping, woken, faults, sigs, myctr, insig, 
+                               hcs, alive, cs, pre, T, htmp, hg, hf, hheld, 
+                               entry, i, op, res, tmp, g, f, held, old, oldh, 
+                               popped, it, nx, st, wi, wl, ph, scan, v, ipi, 
+                               ret, mret >>
 
 s_p2(self) == /\ pc[self] = "s_p2"
               /\ ph' = [ph EXCEPT ![self] = 2]
               /\ ret' = [ret EXCEPT ![self] = "s_splice"]
               /\ pc' = [pc EXCEPT ![self] = "w_top"]
-              /\ UNCHANGED << mem, sb, lock, acc, registry, cursnap, qsr, 
+              /\ UNCHANGED << mem, sb, lock, acc, registry, cursnap, qsr, regd, 
                               sleeping, woken, faults, sigs, myctr, insig, hcs, 
                               alive, cs, pre, T, htmp, hg, hf, hheld, entry, i, 
                               op, res, tmp, g, f, held, old, oldh, popped, it, 
@@ -1240,28 +1402,31 @@ s_splice(self) == /\ pc[self] = "s_splice"
                   /\ /\ qsr' = {}
                      /\ registry' = (registry \cup qsr)
                   /\ pc' = [pc EXCEPT ![self] = "s_mm2"]
-                  /\ UNCHANGED << mem, sb, lock, acc, cursnap, sleeping, woken, 
-                                  faults, sigs, myctr, insig, hcs, alive, cs, 
-                                  pre, T, htmp, hg, hf, hheld, entry, i, op, 
-                                  res, tmp, g, f, held, old, oldh, popped, it, 
-                                  nx, st, wi, wl, ph, scan, v, ipi, ret, mret >>
+                  /\ UNCHANGED << mem, sb, lock, acc, cursnap, regd, sleeping, 
+                                  woken, faults, sigs, myctr, insig, hcs, 
+                                  alive, cs, pre, T, htmp, hg, hf, hheld, 
+                                  entry, i, op, res, tmp, g, f, held, old, 
+                                  oldh, popped, it, nx, st, wi, wl, ph, scan, 
+                                  v, ipi, ret, mret >>
 
 s_mm2(self) == /\ pc[self] = "s_mm2"
                /\ mret' = [mret EXCEPT ![self] = "s_out"]
-               /\ pc' = [pc EXCEPT ![self] = "master"]
+               /\ IF "s_mm2" \in Skip
+                     THEN /\ pc' = [pc EXCEPT ![self] = "s_out"]
+                     ELSE /\ pc' = [pc EXCEPT ![self] = "master"]
                /\ UNCHANGED << mem, sb, lock, acc, registry, cursnap, qsr, 
-                               sleeping, woken, faults, sigs, myctr, insig, 
-                               hcs, alive, cs, pre, T, htmp, hg, hf, hheld, 
-                               entry, i, op, res, tmp, g, f, held, old, oldh, 
-                               popped, it, nx, st, wi, wl, ph, scan, v, ipi, 
-                               ret >>
+                               regd, sleeping, woken, faults, sigs, myctr, 
+                               insig, hcs, alive, cs, pre, T, htmp, hg, hf, 
+                               hheld, entry, i, op, res, tmp, g, f, held, old, 
+                               oldh, popped, it, nx, st, wi, wl, ph, scan, v, 
+                               ipi, ret >>
 
 s_out(self) == /\ pc[self] = "s_out"
                /\ Drained(self)
                /\ lock' = [lock EXCEPT !["registry_lock"] = "free"]
                /\ acc' = Ev(self, "unlock", "registry_lock", "-", "-", "-")
                /\ pc' = [pc EXCEPT ![self] = "s_gpun"]
-               /\ UNCHANGED << mem, sb, registry, cursnap, qsr, sleeping, 
+               /\ UNCHANGED << mem, sb, registry, cursnap, qsr, regd, sleeping, 
                                woken, faults, sigs, myctr, insig, hcs, alive, 
                                cs, pre, T, htmp, hg, hf, hheld, entry, i, op, 
                                res, tmp, g, f, held, old, oldh, popped, it, nx, 
@@ -1273,22 +1438,23 @@ s_gpun(self) == /\ pc[self] = "s_gpun"
                 /\ acc' = Ev(self, "unlock", "gp_lock", "-", "-", "-")
                 /\ it' = [it EXCEPT ![self] = popped[self]]
                 /\ pc' = [pc EXCEPT ![self] = "k_top"]
-                /\ UNCHANGED << mem, sb, registry, cursnap, qsr, sleeping, 
-                                woken, faults, sigs, myctr, insig, hcs, alive, 
-                                cs, pre, T, htmp, hg, hf, hheld, entry, i, op, 
-                                res, tmp, g, f, held, old, oldh, popped, nx, 
-                                st, wi, wl, ph, scan, v, ipi, ret, mret >>
+                /\ UNCHANGED << mem, sb, registry, cursnap, qsr, regd, 
+                                sleeping, woken, faults, sigs, myctr, insig, 
+                                hcs, alive, cs, pre, T, htmp, hg, hf, hheld, 
+                                entry, i, op, res, tmp, g, f, held, old, oldh, 
+                                popped, nx, st, wi, wl, ph, scan, v, ipi, ret, 
+                                mret >>
 
 k_top(self) == /\ pc[self] = "k_top"
                /\ IF it[self] = END
                      THEN /\ pc' = [pc EXCEPT ![self] = "s_ret"]
                      ELSE /\ pc' = [pc EXCEPT ![self] = "k_next"]
                /\ UNCHANGED << mem, sb, lock, acc, registry, cursnap, qsr, 
-                               sleeping, woken, faults, sigs, myctr, insig, 
-                               hcs, alive, cs, pre, T, htmp, hg, hf, hheld, 
-                               entry, i, op, res, tmp, g, f, held, old, oldh, 
-                               popped, it, nx, st, wi, wl, ph, scan, v, ipi, 
-                               ret, mret >>
+                               regd, sleeping, woken, faults, sigs, myctr, 
+                               insig, hcs, alive, cs, pre, T, htmp, hg, hf, 
+                               hheld, entry, i, op, res, tmp, g, f, held, old, 
+                               oldh, popped, it, nx, st, wi, wl, ph, scan, v, 
+                               ipi, ret, mret >>
 
 k_next(self) == /\ pc[self] = "k_next"
                 /\ nx' = [nx EXCEPT ![self] = Rd(self, (WnNext(it[self])))]
@@ -1296,7 +1462,7 @@ k_next(self) == /\ pc[self] = "k_next"
                 /\ IF nx'[self] = NULL
                       THEN /\ pc' = [pc EXCEPT ![self] = "k_next"]
                       ELSE /\ pc' = [pc EXCEPT ![self] = "k_ldst"]
-                /\ UNCHANGED << mem, sb, lock, registry, cursnap, qsr, 
+                /\ UNCHANGED << mem, sb, lock, registry, cursnap, qsr, regd, 
                                 sleeping, woken, faults, sigs, myctr, insig, 
                                 hcs, alive, cs, pre, T, htmp, hg, hf, hheld, 
                                 entry, i, op, res, tmp, g, f, held, old, oldh, 
@@ -1311,7 +1477,7 @@ k_ldst(self) == /\ pc[self] = "k_ldst"
                            /\ pc' = [pc EXCEPT ![self] = "k_top"]
                       ELSE /\ pc' = [pc EXCEPT ![self] = "k_as"]
                            /\ it' = it
-                /\ UNCHANGED << mem, sb, lock, registry, cursnap, qsr, 
+                /\ UNCHANGED << mem, sb, lock, registry, cursnap, qsr, regd, 
                                 sleeping, woken, faults, sigs, myctr, insig, 
                                 hcs, alive, cs, pre, T, htmp, hg, hf, hheld, 
                                 entry, i, op, res, tmp, g, f, held, old, oldh, 
@@ -1322,55 +1488,120 @@ k_as(self) == /\ pc[self] = "k_as"
               /\ st' = [st EXCEPT ![self] = Rd(self, (WnState(it[self])))]
               /\ acc' = Ev(self, "ld", (WnState(it[self])), "-", "-", Rd(self, (WnState(it[self]))))
               /\ Assert(st'[self] = WAITING, 
-                        "Failure of assertion at line 249, column 11.")
+                        "Failure of assertion at line 283, column 11.")
               /\ pc' = [pc EXCEPT ![self] = "k_wk"]
-              /\ UNCHANGED << mem, sb, lock, registry, cursnap, qsr, sleeping, 
-                              woken, faults, sigs, myctr, insig, hcs, alive, 
-                              cs, pre, T, htmp, hg, hf, hheld, entry, i, op, 
-                              res, tmp, g, f, held, old, oldh, popped, it, nx, 
-                              wi, wl, ph, scan, v, ipi, ret, mret >>
+              /\ UNCHANGED << mem, sb, lock, registry, cursnap, qsr, regd, 
+                              sleeping, woken, faults, sigs, myctr, insig, hcs, 
+                              alive, cs, pre, T, htmp, hg, hf, hheld, entry, i, 
+                              op, res, tmp, g, f, held, old, oldh, popped, it, 
+                              nx, wi, wl, ph, scan, v, ipi, ret, mret >>
 
 k_wk(self) == /\ pc[self] = "k_wk"
               /\ IF TSO
-                    THEN /\ sb' = [sb EXCEPT ![self] = Append(sb[self], <<(WnState(it[self])), WAKEUP>>)]
+                    THEN /\ ~SBBlock \/ Len(sb[self]) < SBMax
+                         /\ sb' = [sb EXCEPT ![self] = Append(sb[self], <<(WnState(it[self])), WAKEUP>>)]
                          /\ mem' = mem
                     ELSE /\ mem' = [mem EXCEPT ![(WnState(it[self]))] = WAKEUP]
                          /\ sb' = sb
               /\ acc' = Ev(self, "st", (WnState(it[self])), WAKEUP, "-", "-")
               /\ pc' = [pc EXCEPT ![self] = "k_ld2"]
-              /\ UNCHANGED << lock, registry, cursnap, qsr, sleeping, woken, 
-                              faults, sigs, myctr, insig, hcs, alive, cs, pre, 
-                              T, htmp, hg, hf, hheld, entry, i, op, res, tmp, 
-                              g, f, held, old, oldh, popped, it, nx, st, wi, 
-                              wl, ph, scan, v, ipi, ret, mret >>
+              /\ UNCHANGED << lock, registry, cursnap, qsr, regd, sleeping, 
+                              woken, faults, sigs, myctr, insig, hcs, alive, 
+                              cs, pre, T, htmp, hg, hf, hheld, entry, i, op, 
+                              res, tmp, g, f, held, old, oldh, popped, it, nx, 
+                              st, wi, wl, ph, scan, v, ipi, ret, mret >>
 
 k_ld2(self) == /\ pc[self] = "k_ld2"
                /\ st' = [st EXCEPT ![self] = Rd(self, (WnState(it[self])))]
                /\ acc' = Ev(self, "ld", (WnState(it[self])), "-", "-", Rd(self, (WnState(it[self]))))
                /\ IF HasBit(st'[self], RUNNING)
                      THEN /\ pc' = [pc EXCEPT ![self] = "k_or"]
-                     ELSE /\ pc' = [pc EXCEPT ![self] = "k_fw"]
-               /\ UNCHANGED << mem, sb, lock, registry, cursnap, qsr, sleeping, 
-                               woken, faults, sigs, myctr, insig, hcs, alive, 
-                               cs, pre, T, htmp, hg, hf, hheld, entry, i, op, 
-                               res, tmp, g, f, held, old, oldh, popped, it, nx, 
-                               wi, wl, ph, scan, v, ipi, ret, mret >>
+                     ELSE /\ IF FutexMode = "compat"
+                                THEN /\ pc' = [pc EXCEPT ![self] = "kn_mb"]
+                                ELSE /\ pc' = [pc EXCEPT ![self] = "k_fw"]
+               /\ UNCHANGED << mem, sb, lock, registry, cursnap, qsr, regd, 
+                               sleeping, woken, faults, sigs, myctr, insig, 
+                               hcs, alive, cs, pre, T, htmp, hg, hf, hheld, 
+                               entry, i, op, res, tmp, g, f, held, old, oldh, 
+                               popped, it, nx, wi, wl, ph, scan, v, ipi, ret, 
+                               mret >>
 
 k_fw(self) == /\ pc[self] = "k_fw"
               /\ Drained(self)
-              /\ \E w \in IF {t \in Threads : sleeping[t] = WnState(it[self]) /\ ~woken[t]} = {} THEN {"none"}
-                          ELSE {t \in Threads : sleeping[t] = WnState(it[self]) /\ ~woken[t]}:
-                   /\ IF w # "none"
-                         THEN /\ woken' = [woken EXCEPT ![w] = TRUE]
-                         ELSE /\ TRUE
-                              /\ woken' = woken
-                   /\ acc' = Ev(self, "fwake", WnState(it[self]), "-", "-", IF w = "none" THEN 0 ELSE 1)
-              /\ pc' = [pc EXCEPT ![self] = "k_or"]
-              /\ UNCHANGED << mem, sb, lock, registry, cursnap, qsr, sleeping, 
-                              faults, sigs, myctr, insig, hcs, alive, cs, pre, 
-                              T, htmp, hg, hf, hheld, entry, i, op, res, tmp, 
-                              g, f, held, old, oldh, popped, it, nx, st, wi, 
-                              wl, ph, scan, v, ipi, ret, mret >>
+              /\ IF FutexMode = "futex"
+                    THEN /\ \E w \in IF {t \in Threads : sleeping[t] = WnState(it[self]) /\ ~woken[t]} = {} THEN {"none"}
+                                     ELSE {t \in Threads : sleeping[t] = WnState(it[self]) /\ ~woken[t]}:
+                              /\ IF w # "none"
+                                    THEN /\ woken' = [woken EXCEPT ![w] = TRUE]
+                                    ELSE /\ TRUE
+                                         /\ woken' = woken
+                              /\ acc' = Ev(self, "fwake", WnState(it[self]), "-", "-", IF w = "none" THEN 0 ELSE 1)
+                         /\ pc' = [pc EXCEPT ![self] = "k_or"]
+                    ELSE /\ acc' = Ev(self, "fwake", WnState(it[self]), "-", "-", "ENOSYS")
+                         /\ pc' = [pc EXCEPT ![self] = "kc_mb"]
+                         /\ woken' = woken
+              /\ UNCHANGED << mem, sb, lock, registry, cursnap, qsr, regd, 
+                              sleeping, faults, sigs, myctr, insig, hcs, alive, 
+                              cs, pre, T, htmp, hg, hf, hheld, entry, i, op, 
+                              res, tmp, g, f, held, old, oldh, popped, it, nx, 
+                              st, wi, wl, ph, scan, v, ipi, ret, mret >>
+
+kc_mb(self) == /\ pc[self] = "kc_mb"
+               /\ Drained(self)
+               /\ acc' = Ev(self, "mb", "-", "-", "-", "-")
+               /\ pc' = [pc EXCEPT ![self] = "k_or"]
+               /\ UNCHANGED << mem, sb, lock, registry, cursnap, qsr, regd, 
+                               sleeping, woken, faults, sigs, myctr, insig, 
+                               hcs, alive, cs, pre, T, htmp, hg, hf, hheld, 
+                               entry, i, op, res, tmp, g, f, held, old, oldh, 
+                               popped, it, nx, st, wi, wl, ph, scan, v, ipi, 
+                               ret, mret >>
+
+kn_mb(self) == /\ pc[self] = "kn_mb"
+               /\ Drained(self)
+               /\ acc' = Ev(self, "mb", "-", "-", "-", "-")
+               /\ pc' = [pc EXCEPT ![self] = "kn_lock"]
+               /\ UNCHANGED << mem, sb, lock, registry, cursnap, qsr, regd, 
+                               sleeping, woken, faults, sigs, myctr, insig, 
+                               hcs, alive, cs, pre, T, htmp, hg, hf, hheld, 
+                               entry, i, op, res, tmp, g, f, held, old, oldh, 
+                               popped, it, nx, st, wi, wl, ph, scan, v, ipi, 
+                               ret, mret >>
+
+kn_lock(self) == /\ pc[self] = "kn_lock"
+                 /\ Drained(self) /\ lock["compat_lock"] = "free"
+                 /\ lock' = [lock EXCEPT !["compat_lock"] = self]
+                 /\ acc' = Ev(self, "lock", "compat_lock", "-", "-", "-")
+                 /\ pc' = [pc EXCEPT ![self] = "kn_bc"]
+                 /\ UNCHANGED << mem, sb, registry, cursnap, qsr, regd, 
+                                 sleeping, woken, faults, sigs, myctr, insig, 
+                                 hcs, alive, cs, pre, T, htmp, hg, hf, hheld, 
+                                 entry, i, op, res, tmp, g, f, held, old, oldh, 
+                                 popped, it, nx, st, wi, wl, ph, scan, v, ipi, 
+                                 ret, mret >>
+
+kn_bc(self) == /\ pc[self] = "kn_bc"
+               /\ Drained(self)
+               /\ woken' = [t \in Threads |-> IF sleeping[t] = "compat_cond" THEN TRUE ELSE woken[t]]
+               /\ acc' = Ev(self, "cbroadcast", "-", "-", "-", "-")
+               /\ pc' = [pc EXCEPT ![self] = "kn_unl"]
+               /\ UNCHANGED << mem, sb, lock, registry, cursnap, qsr, regd, 
+                               sleeping, faults, sigs, myctr, insig, hcs, 
+                               alive, cs, pre, T, htmp, hg, hf, hheld, entry, 
+                               i, op, res, tmp, g, f, held, old, oldh, popped, 
+                               it, nx, st, wi, wl, ph, scan, v, ipi, ret, mret >>
+
+kn_unl(self) == /\ pc[self] = "kn_unl"
+                /\ Drained(self)
+                /\ lock' = [lock EXCEPT !["compat_lock"] = "free"]
+                /\ acc' = Ev(self, "unlock", "compat_lock", "-", "-", "-")
+                /\ pc' = [pc EXCEPT ![self] = "k_or"]
+                /\ UNCHANGED << mem, sb, registry, cursnap, qsr, regd, 
+                                sleeping, woken, faults, sigs, myctr, insig, 
+                                hcs, alive, cs, pre, T, htmp, hg, hf, hheld, 
+                                entry, i, op, res, tmp, g, f, held, old, oldh, 
+                                popped, it, nx, st, wi, wl, ph, scan, v, ipi, 
+                                ret, mret >>
 
 k_or(self) == /\ pc[self] = "k_or"
               /\ Drained(self)
@@ -1378,7 +1609,7 @@ k_or(self) == /\ pc[self] = "k_or"
                  /\ mem' = [mem EXCEPT ![WnState(it[self])] = OrBit(mem[WnState(it[self])], TEARDOWN)]
               /\ it' = [it EXCEPT ![self] = nx[self]]
               /\ pc' = [pc EXCEPT ![self] = "k_top"]
-              /\ UNCHANGED << sb, lock, registry, cursnap, qsr, sleeping, 
+              /\ UNCHANGED << sb, lock, registry, cursnap, qsr, regd, sleeping, 
                               woken, faults, sigs, myctr, insig, hcs, alive, 
                               cs, pre, T, htmp, hg, hf, hheld, entry, i, op, 
                               res, tmp, g, f, held, old, oldh, popped, nx, st, 
@@ -1394,39 +1625,46 @@ a_ld1(self) == /\ pc[self] = "a_ld1"
                           /\ IF wi'[self] < WaitAttempts
                                 THEN /\ pc' = [pc EXCEPT ![self] = "a_ld1"]
                                 ELSE /\ pc' = [pc EXCEPT ![self] = "a_ld2"]
-               /\ UNCHANGED << mem, sb, lock, registry, cursnap, qsr, sleeping, 
-                               woken, faults, sigs, myctr, insig, hcs, alive, 
-                               cs, pre, T, htmp, hg, hf, hheld, entry, i, op, 
-                               res, tmp, g, f, held, old, oldh, popped, it, nx, 
-                               wl, ph, scan, v, ipi, ret, mret >>
+               /\ UNCHANGED << mem, sb, lock, registry, cursnap, qsr, regd, 
+                               sleeping, woken, faults, sigs, myctr, insig, 
+                               hcs, alive, cs, pre, T, htmp, hg, hf, hheld, 
+                               entry, i, op, res, tmp, g, f, held, old, oldh, 
+                               popped, it, nx, wl, ph, scan, v, ipi, ret, mret >>
 
 a_ld2(self) == /\ pc[self] = "a_ld2"
                /\ st' = [st EXCEPT ![self] = Rd(self, (WnState(Wn(self))))]
                /\ acc' = Ev(self, "ld", (WnState(Wn(self))), "-", "-", Rd(self, (WnState(Wn(self)))))
                /\ IF st'[self] # WAITING
                      THEN /\ pc' = [pc EXCEPT ![self] = "a_or"]
-                     ELSE /\ pc' = [pc EXCEPT ![self] = "a_fw"]
-               /\ UNCHANGED << mem, sb, lock, registry, cursnap, qsr, sleeping, 
-                               woken, faults, sigs, myctr, insig, hcs, alive, 
-                               cs, pre, T, htmp, hg, hf, hheld, entry, i, op, 
-                               res, tmp, g, f, held, old, oldh, popped, it, nx, 
-                               wi, wl, ph, scan, v, ipi, ret, mret >>
+                     ELSE /\ IF FutexMode = "compat"
+                                THEN /\ pc' = [pc EXCEPT ![self] = "an_mb"]
+                                ELSE /\ pc' = [pc EXCEPT ![self] = "a_fw"]
+               /\ UNCHANGED << mem, sb, lock, registry, cursnap, qsr, regd, 
+                               sleeping, woken, faults, sigs, myctr, insig, 
+                               hcs, alive, cs, pre, T, htmp, hg, hf, hheld, 
+                               entry, i, op, res, tmp, g, f, held, old, oldh, 
+                               popped, it, nx, wi, wl, ph, scan, v, ipi, ret, 
+                               mret >>
 
 a_fw(self) == /\ pc[self] = "a_fw"
               /\ Drained(self)
-              /\ IF mem[WnState(Wn(self))] # WAITING
-                    THEN /\ acc' = Ev(self, "fwait", WnState(Wn(self)), WAITING, "-", "EAGAIN")
-                         /\ pc' = [pc EXCEPT ![self] = "a_or"]
+              /\ IF FutexMode # "futex"
+                    THEN /\ acc' = Ev(self, "fwait", WnState(Wn(self)), "-", "-", "ENOSYS")
+                         /\ pc' = [pc EXCEPT ![self] = "ac_mb"]
                          /\ UNCHANGED << sleeping, woken >>
-                    ELSE /\ sleeping' = [sleeping EXCEPT ![self] = WnState(Wn(self))]
-                         /\ woken' = [woken EXCEPT ![self] = FALSE]
-                         /\ acc' = Ev(self, "fwait", WnState(Wn(self)), WAITING, "-", "SLEEP")
-                         /\ pc' = [pc EXCEPT ![self] = "a_wk"]
-              /\ UNCHANGED << mem, sb, lock, registry, cursnap, qsr, faults, 
-                              sigs, myctr, insig, hcs, alive, cs, pre, T, htmp, 
-                              hg, hf, hheld, entry, i, op, res, tmp, g, f, 
-                              held, old, oldh, popped, it, nx, st, wi, wl, ph, 
-                              scan, v, ipi, ret, mret >>
+                    ELSE /\ IF mem[WnState(Wn(self))] # WAITING
+                               THEN /\ acc' = Ev(self, "fwait", WnState(Wn(self)), WAITING, "-", "EAGAIN")
+                                    /\ pc' = [pc EXCEPT ![self] = "a_or"]
+                                    /\ UNCHANGED << sleeping, woken >>
+                               ELSE /\ sleeping' = [sleeping EXCEPT ![self] = WnState(Wn(self))]
+                                    /\ woken' = [woken EXCEPT ![self] = FALSE]
+                                    /\ acc' = Ev(self, "fwait", WnState(Wn(self)), WAITING, "-", "SLEEP")
+                                    /\ pc' = [pc EXCEPT ![self] = "a_wk"]
+              /\ UNCHANGED << mem, sb, lock, registry, cursnap, qsr, regd, 
+                              faults, sigs, myctr, insig, hcs, alive, cs, pre, 
+                              T, htmp, hg, hf, hheld, entry, i, op, res, tmp, 
+                              g, f, held, old, oldh, popped, it, nx, st, wi, 
+                              wl, ph, scan, v, ipi, ret, mret >>
 
 a_wk(self) == /\ pc[self] = "a_wk"
               /\ \/ /\ woken[self]
@@ -1441,11 +1679,122 @@ a_wk(self) == /\ pc[self] = "a_wk"
               /\ sleeping' = [sleeping EXCEPT ![self] = "none"]
               /\ woken' = [woken EXCEPT ![self] = FALSE]
               /\ pc' = [pc EXCEPT ![self] = "a_ld2"]
-              /\ UNCHANGED << mem, sb, lock, registry, cursnap, qsr, sigs, 
-                              myctr, insig, hcs, alive, cs, pre, T, htmp, hg, 
-                              hf, hheld, entry, i, op, res, tmp, g, f, held, 
-                              old, oldh, popped, it, nx, st, wi, wl, ph, scan, 
-                              v, ipi, ret, mret >>
+              /\ UNCHANGED << mem, sb, lock, registry, cursnap, qsr, regd, 
+                              sigs, myctr, insig, hcs, alive, cs, pre, T, htmp, 
+                              hg, hf, hheld, entry, i, op, res, tmp, g, f, 
+                              held, old, oldh, popped, it, nx, st, wi, wl, ph, 
+                              scan, v, ipi, ret, mret >>
+
+ac_mb(self) == /\ pc[self] = "ac_mb"
+               /\ Drained(self)
+               /\ acc' = Ev(self, "mb", "-", "-", "-", "-")
+               /\ pc' = [pc EXCEPT ![self] = "ac_ld"]
+               /\ UNCHANGED << mem, sb, lock, registry, cursnap, qsr, regd, 
+                               sleeping, woken, faults, sigs, myctr, insig, 
+                               hcs, alive, cs, pre, T, htmp, hg, hf, hheld, 
+                               entry, i, op, res, tmp, g, f, held, old, oldh, 
+                               popped, it, nx, st, wi, wl, ph, scan, v, ipi, 
+                               ret, mret >>
+
+ac_ld(self) == /\ pc[self] = "ac_ld"
+               /\ st' = [st EXCEPT ![self] = Rd(self, (WnState(Wn(self))))]
+               /\ acc' = Ev(self, "ld", (WnState(Wn(self))), "-", "-", Rd(self, (WnState(Wn(self)))))
+               /\ IF st'[self] = WAITING
+                     THEN /\ pc' = [pc EXCEPT ![self] = "ac_ld"]
+                     ELSE /\ pc' = [pc EXCEPT ![self] = "a_ld2"]
+               /\ UNCHANGED << mem, sb, lock, registry, cursnap, qsr, regd, 
+                               sleeping, woken, faults, sigs, myctr, insig, 
+                               hcs, alive, cs, pre, T, htmp, hg, hf, hheld, 
+                               entry, i, op, res, tmp, g, f, held, old, oldh, 
+                               popped, it, nx, wi, wl, ph, scan, v, ipi, ret, 
+                               mret >>
+
+an_mb(self) == /\ pc[self] = "an_mb"
+               /\ Drained(self)
+               /\ acc' = Ev(self, "mb", "-", "-", "-", "-")
+               /\ pc' = [pc EXCEPT ![self] = "an_lock"]
+               /\ UNCHANGED << mem, sb, lock, registry, cursnap, qsr, regd, 
+                               sleeping, woken, faults, sigs, myctr, insig, 
+                               hcs, alive, cs, pre, T, htmp, hg, hf, hheld, 
+                               entry, i, op, res, tmp, g, f, held, old, oldh, 
+                               popped, it, nx, st, wi, wl, ph, scan, v, ipi, 
+                               ret, mret >>
+
+an_lock(self) == /\ pc[self] = "an_lock"
+                 /\ Drained(self) /\ lock["compat_lock"] = "free"
+                 /\ lock' = [lock EXCEPT !["compat_lock"] = self]
+                 /\ acc' = Ev(self, "lock", "compat_lock", "-", "-", "-")
+                 /\ pc' = [pc EXCEPT ![self] = "an_ld"]
+                 /\ UNCHANGED << mem, sb, registry, cursnap, qsr, regd, 
+                                 sleeping, woken, faults, sigs, myctr, insig, 
+                                 hcs, alive, cs, pre, T, htmp, hg, hf, hheld, 
+                                 entry, i, op, res, tmp, g, f, held, old, oldh, 
+                                 popped, it, nx, st, wi, wl, ph, scan, v, ipi, 
+                                 ret, mret >>
+
+an_ld(self) == /\ pc[self] = "an_ld"
+               /\ st' = [st EXCEPT ![self] = Rd(self, (WnState(Wn(self))))]
+               /\ acc' = Ev(self, "ld", (WnState(Wn(self))), "-", "-", Rd(self, (WnState(Wn(self)))))
+               /\ IF st'[self] # WAITING
+                     THEN /\ pc' = [pc EXCEPT ![self] = "an_unl"]
+                     ELSE /\ pc' = [pc EXCEPT ![self] = "an_cw"]
+               /\ UNCHANGED << mem, sb, lock, registry, cursnap, qsr, regd, 
+                               sleeping, woken, faults, sigs, myctr, insig, 
+                               hcs, alive, cs, pre, T, htmp, hg, hf, hheld, 
+                               entry, i, op, res, tmp, g, f, held, old, oldh, 
+                               popped, it, nx, wi, wl, ph, scan, v, ipi, ret, 
+                               mret >>
+
+an_cw(self) == /\ pc[self] = "an_cw"
+               /\ Drained(self)
+               /\ lock' = [lock EXCEPT !["compat_lock"] = "free"]
+               /\ sleeping' = [sleeping EXCEPT ![self] = "compat_cond"]
+               /\ woken' = [woken EXCEPT ![self] = FALSE]
+               /\ acc' = Ev(self, "cwait", "compat_lock", "-", "-", "-")
+               /\ pc' = [pc EXCEPT ![self] = "an_cwk"]
+               /\ UNCHANGED << mem, sb, registry, cursnap, qsr, regd, faults, 
+                               sigs, myctr, insig, hcs, alive, cs, pre, T, 
+                               htmp, hg, hf, hheld, entry, i, op, res, tmp, g, 
+                               f, held, old, oldh, popped, it, nx, st, wi, wl, 
+                               ph, scan, v, ipi, ret, mret >>
+
+an_cwk(self) == /\ pc[self] = "an_cwk"
+                /\ \/ /\ woken[self]
+                      /\ UNCHANGED faults
+                   \/ /\ ~woken[self] /\ faults < FaultBudget
+                      /\ faults' = faults + 1
+                /\ sleeping' = [sleeping EXCEPT ![self] = "none"]
+                /\ woken' = [woken EXCEPT ![self] = FALSE]
+                /\ pc' = [pc EXCEPT ![self] = "an_relk"]
+                /\ UNCHANGED << mem, sb, lock, acc, registry, cursnap, qsr, 
+                                regd, sigs, myctr, insig, hcs, alive, cs, pre, 
+                                T, htmp, hg, hf, hheld, entry, i, op, res, tmp, 
+                                g, f, held, old, oldh, popped, it, nx, st, wi, 
+                                wl, ph, scan, v, ipi, ret, mret >>
+
+an_relk(self) == /\ pc[self] = "an_relk"
+                 /\ Drained(self) /\ lock["compat_lock"] = "free"
+                 /\ lock' = [lock EXCEPT !["compat_lock"] = self]
+                 /\ acc' = Ev(self, "cwoke", "compat_lock", "-", "-", "-")
+                 /\ pc' = [pc EXCEPT ![self] = "an_ld"]
+                 /\ UNCHANGED << mem, sb, registry, cursnap, qsr, regd, 
+                                 sleeping, woken, faults, sigs, myctr, insig, 
+                                 hcs, alive, cs, pre, T, htmp, hg, hf, hheld, 
+                                 entry, i, op, res, tmp, g, f, held, old, oldh, 
+                                 popped, it, nx, st, wi, wl, ph, scan, v, ipi, 
+                                 ret, mret >>
+
+an_unl(self) == /\ pc[self] = "an_unl"
+                /\ Drained(self)
+                /\ lock' = [lock EXCEPT !["compat_lock"] = "free"]
+                /\ acc' = Ev(self, "unlock", "compat_lock", "-", "-", "-")
+                /\ pc' = [pc EXCEPT ![self] = "a_ld2"]
+                /\ UNCHANGED << mem, sb, registry, cursnap, qsr, regd, 
+                                sleeping, woken, faults, sigs, myctr, insig, 
+                                hcs, alive, cs, pre, T, htmp, hg, hf, hheld, 
+                                entry, i, op, res, tmp, g, f, held, old, oldh, 
+                                popped, it, nx, st, wi, wl, ph, scan, v, ipi, 
+                                ret, mret >>
 
 a_or(self) == /\ pc[self] = "a_or"
               /\ Drained(self)
@@ -1453,7 +1802,7 @@ a_or(self) == /\ pc[self] = "a_or"
                  /\ mem' = [mem EXCEPT ![WnState(Wn(self))] = OrBit(mem[WnState(Wn(self))], RUNNING)]
               /\ wi' = [wi EXCEPT ![self] = 0]
               /\ pc' = [pc EXCEPT ![self] = "a_ld3"]
-              /\ UNCHANGED << sb, lock, registry, cursnap, qsr, sleeping, 
+              /\ UNCHANGED << sb, lock, registry, cursnap, qsr, regd, sleeping, 
                               woken, faults, sigs, myctr, insig, hcs, alive, 
                               cs, pre, T, htmp, hg, hf, hheld, entry, i, op, 
                               res, tmp, g, f, held, old, oldh, popped, it, nx, 
@@ -1469,11 +1818,11 @@ a_ld3(self) == /\ pc[self] = "a_ld3"
                           /\ IF wi'[self] < WaitAttempts
                                 THEN /\ pc' = [pc EXCEPT ![self] = "a_ld3"]
                                 ELSE /\ pc' = [pc EXCEPT ![self] = "a_ld4"]
-               /\ UNCHANGED << mem, sb, lock, registry, cursnap, qsr, sleeping, 
-                               woken, faults, sigs, myctr, insig, hcs, alive, 
-                               cs, pre, T, htmp, hg, hf, hheld, entry, i, op, 
-                               res, tmp, g, f, held, old, oldh, popped, it, nx, 
-                               wl, ph, scan, v, ipi, ret, mret >>
+               /\ UNCHANGED << mem, sb, lock, registry, cursnap, qsr, regd, 
+                               sleeping, woken, faults, sigs, myctr, insig, 
+                               hcs, alive, cs, pre, T, htmp, hg, hf, hheld, 
+                               entry, i, op, res, tmp, g, f, held, old, oldh, 
+                               popped, it, nx, wl, ph, scan, v, ipi, ret, mret >>
 
 a_ld4(self) == /\ pc[self] = "a_ld4"
                /\ st' = [st EXCEPT ![self] = Rd(self, (WnState(Wn(self))))]
@@ -1481,46 +1830,48 @@ a_ld4(self) == /\ pc[self] = "a_ld4"
                /\ IF ~HasBit(st'[self], TEARDOWN)
                      THEN /\ pc' = [pc EXCEPT ![self] = "a_ld4"]
                      ELSE /\ pc' = [pc EXCEPT ![self] = "a_ld5"]
-               /\ UNCHANGED << mem, sb, lock, registry, cursnap, qsr, sleeping, 
-                               woken, faults, sigs, myctr, insig, hcs, alive, 
-                               cs, pre, T, htmp, hg, hf, hheld, entry, i, op, 
-                               res, tmp, g, f, held, old, oldh, popped, it, nx, 
-                               wi, wl, ph, scan, v, ipi, ret, mret >>
+               /\ UNCHANGED << mem, sb, lock, registry, cursnap, qsr, regd, 
+                               sleeping, woken, faults, sigs, myctr, insig, 
+                               hcs, alive, cs, pre, T, htmp, hg, hf, hheld, 
+                               entry, i, op, res, tmp, g, f, held, old, oldh, 
+                               popped, it, nx, wi, wl, ph, scan, v, ipi, ret, 
+                               mret >>
 
 a_ld5(self) == /\ pc[self] = "a_ld5"
                /\ st' = [st EXCEPT ![self] = Rd(self, (WnState(Wn(self))))]
                /\ acc' = Ev(self, "ld", (WnState(Wn(self))), "-", "-", Rd(self, (WnState(Wn(self)))))
                /\ Assert(HasBit(st'[self], TEARDOWN), 
-                         "Failure of assertion at line 286, column 11.")
+                         "Failure of assertion at line 352, column 11.")
                /\ pc' = [pc EXCEPT ![self] = "s_ret"]
-               /\ UNCHANGED << mem, sb, lock, registry, cursnap, qsr, sleeping, 
-                               woken, faults, sigs, myctr, insig, hcs, alive, 
-                               cs, pre, T, htmp, hg, hf, hheld, entry, i, op, 
-                               res, tmp, g, f, held, old, oldh, popped, it, nx, 
-                               wi, wl, ph, scan, v, ipi, ret, mret >>
+               /\ UNCHANGED << mem, sb, lock, registry, cursnap, qsr, regd, 
+                               sleeping, woken, faults, sigs, myctr, insig, 
+                               hcs, alive, cs, pre, T, htmp, hg, hf, hheld, 
+                               entry, i, op, res, tmp, g, f, held, old, oldh, 
+                               popped, it, nx, wi, wl, ph, scan, v, ipi, ret, 
+                               mret >>
 
 s_ret(self) == /\ pc[self] = "s_ret"
                /\ Assert(pre[self] \cap OpenCS = {}, 
-                         "Failure of assertion at line 289, column 11.")
+                         "Failure of assertion at line 355, column 11.")
                /\ mem' = [mem EXCEPT ![WnNext(Wn(self))] = NULL,
                                      ![WnState(Wn(self))] = 0]
                /\ pre' = [pre EXCEPT ![self] = {}]
                /\ pc' = [pc EXCEPT ![self] = "t_ret"]
-               /\ UNCHANGED << sb, lock, acc, registry, cursnap, qsr, sleeping, 
-                               woken, faults, sigs, myctr, insig, hcs, alive, 
-                               cs, T, htmp, hg, hf, hheld, entry, i, op, res, 
-                               tmp, g, f, held, old, oldh, popped, it, nx, st, 
-                               wi, wl, ph, scan, v, ipi, ret, mret >>
+               /\ UNCHANGED << sb, lock, acc, registry, cursnap, qsr, regd, 
+                               sleeping, woken, faults, sigs, myctr, insig, 
+                               hcs, alive, cs, T, htmp, hg, hf, hheld, entry, 
+                               i, op, res, tmp, g, f, held, old, oldh, popped, 
+                               it, nx, st, wi, wl, ph, scan, v, ipi, ret, mret >>
 
 w_top(self) == /\ pc[self] = "w_top"
                /\ wl' = [wl EXCEPT ![self] = 0]
                /\ pc' = [pc EXCEPT ![self] = "w_loop"]
                /\ UNCHANGED << mem, sb, lock, acc, registry, cursnap, qsr, 
-                               sleeping, woken, faults, sigs, myctr, insig, 
-                               hcs, alive, cs, pre, T, htmp, hg, hf, hheld, 
-                               entry, i, op, res, tmp, g, f, held, old, oldh, 
-                               popped, it, nx, st, wi, ph, scan, v, ipi, ret, 
-                               mret >>
+                               regd, sleeping, woken, faults, sigs, myctr, 
+                               insig, hcs, alive, cs, pre, T, htmp, hg, hf, 
+                               hheld, entry, i, op, res, tmp, g, f, held, old, 
+                               oldh, popped, it, nx, st, wi, ph, scan, v, ipi, 
+                               ret, mret >>
 
 w_loop(self) == /\ pc[self] = "w_loop"
                 /\ IF wl[self] < QSAttempts
@@ -1531,27 +1882,30 @@ w_loop(self) == /\ pc[self] = "w_loop"
                       THEN /\ pc' = [pc EXCEPT ![self] = "w_scan0"]
                       ELSE /\ pc' = [pc EXCEPT ![self] = "w_dec"]
                 /\ UNCHANGED << mem, sb, lock, acc, registry, cursnap, qsr, 
-                                sleeping, woken, faults, sigs, myctr, insig, 
-                                hcs, alive, cs, pre, T, htmp, hg, hf, hheld, 
-                                entry, i, op, res, tmp, g, f, held, old, oldh, 
-                                popped, it, nx, st, wi, ph, scan, v, ipi, ret, 
-                                mret >>
+                                regd, sleeping, woken, faults, sigs, myctr, 
+                                insig, hcs, alive, cs, pre, T, htmp, hg, hf, 
+                                hheld, entry, i, op, res, tmp, g, f, held, old, 
+                                oldh, popped, it, nx, st, wi, ph, scan, v, ipi, 
+                                ret, mret >>
 
 w_dec(self) == /\ pc[self] = "w_dec"
                /\ Drained(self)
                /\ /\ acc' = Ev(self, "dec", "gp_futex", "-", "-", mem["gp_futex"] - 1)
                   /\ mem' = [mem EXCEPT !["gp_futex"] = mem["gp_futex"] - 1]
                /\ pc' = [pc EXCEPT ![self] = "w_mm"]
-               /\ UNCHANGED << sb, lock, registry, cursnap, qsr, sleeping, 
-                               woken, faults, sigs, myctr, insig, hcs, alive, 
-                               cs, pre, T, htmp, hg, hf, hheld, entry, i, op, 
-                               res, tmp, g, f, held, old, oldh, popped, it, nx, 
-                               st, wi, wl, ph, scan, v, ipi, ret, mret >>
+               /\ UNCHANGED << sb, lock, registry, cursnap, qsr, regd, 
+                               sleeping, woken, faults, sigs, myctr, insig, 
+                               hcs, alive, cs, pre, T, htmp, hg, hf, hheld, 
+                               entry, i, op, res, tmp, g, f, held, old, oldh, 
+                               popped, it, nx, st, wi, wl, ph, scan, v, ipi, 
+                               ret, mret >>
 
 w_mm(self) == /\ pc[self] = "w_mm"
               /\ mret' = [mret EXCEPT ![self] = "w_scan0"]
-              /\ pc' = [pc EXCEPT ![self] = "master"]
-              /\ UNCHANGED << mem, sb, lock, acc, registry, cursnap, qsr, 
+              /\ IF "w_mm" \in Skip
+                    THEN /\ pc' = [pc EXCEPT ![self] = "w_scan0"]
+                    ELSE /\ pc' = [pc EXCEPT ![self] = "master"]
+              /\ UNCHANGED << mem, sb, lock, acc, registry, cursnap, qsr, regd, 
                               sleeping, woken, faults, sigs, myctr, insig, hcs, 
                               alive, cs, pre, T, htmp, hg, hf, hheld, entry, i, 
                               op, res, tmp, g, f, held, old, oldh, popped, it, 
@@ -1561,25 +1915,27 @@ w_scan0(self) == /\ pc[self] = "w_scan0"
                  /\ scan' = [scan EXCEPT ![self] = IF ph[self] = 1 THEN registry ELSE cursnap]
                  /\ pc' = [pc EXCEPT ![self] = "w_scan"]
                  /\ UNCHANGED << mem, sb, lock, acc, registry, cursnap, qsr, 
-                                 sleeping, woken, faults, sigs, myctr, insig, 
-                                 hcs, alive, cs, pre, T, htmp, hg, hf, hheld, 
-                                 entry, i, op, res, tmp, g, f, held, old, oldh, 
-                                 popped, it, nx, st, wi, wl, ph, v, ipi, ret, 
-                                 mret >>
+                                 regd, sleeping, woken, faults, sigs, myctr, 
+                                 insig, hcs, alive, cs, pre, T, htmp, hg, hf, 
+                                 hheld, entry, i, op, res, tmp, g, f, held, 
+                                 old, oldh, popped, it, nx, st, wi, wl, ph, v, 
+                                 ipi, ret, mret >>
 
 w_scan(self) == /\ pc[self] = "w_scan"
                 /\ IF scan[self] = {}
                       THEN /\ pc' = [pc EXCEPT ![self] = "w_chk"]
                       ELSE /\ pc' = [pc EXCEPT ![self] = "w_ldr"]
                 /\ UNCHANGED << mem, sb, lock, acc, registry, cursnap, qsr, 
-                                sleeping, woken, faults, sigs, myctr, insig, 
-                                hcs, alive, cs, pre, T, htmp, hg, hf, hheld, 
-                                entry, i, op, res, tmp, g, f, held, old, oldh, 
-                                popped, it, nx, st, wi, wl, ph, scan, v, ipi, 
-                                ret, mret >>
+                                regd, sleeping, woken, faults, sigs, myctr, 
+                                insig, hcs, alive, cs, pre, T, htmp, hg, hf, 
+                                hheld, entry, i, op, res, tmp, g, f, held, old, 
+                                oldh, popped, it, nx, st, wi, wl, ph, scan, v, 
+                                ipi, ret, mret >>
 
 w_ldr(self) == /\ pc[self] = "w_ldr"
                /\ \E r \in scan[self]:
+                    /\ Assert(r \in regd, 
+                              "Failure of assertion at line 370, column 13.")
                     /\ v' = [v EXCEPT ![self] = Rd(self, Rctr(r))]
                     /\ acc' = Ev(self, "ld", Rctr(r), "-", "-", Rd(self, Rctr(r)))
                     /\ scan' = [scan EXCEPT ![self] = scan[self] \ {r}]
@@ -1602,11 +1958,11 @@ w_ldr(self) == /\ pc[self] = "w_ldr"
                                           /\ UNCHANGED << registry, cursnap, 
                                                           qsr >>
                /\ pc' = [pc EXCEPT ![self] = "w_scan"]
-               /\ UNCHANGED << mem, sb, lock, sleeping, woken, faults, sigs, 
-                               myctr, insig, hcs, alive, cs, pre, T, htmp, hg, 
-                               hf, hheld, entry, i, op, res, tmp, g, f, held, 
-                               old, oldh, popped, it, nx, st, wi, wl, ph, ipi, 
-                               ret, mret >>
+               /\ UNCHANGED << mem, sb, lock, regd, sleeping, woken, faults, 
+                               sigs, myctr, insig, hcs, alive, cs, pre, T, 
+                               htmp, hg, hf, hheld, entry, i, op, res, tmp, g, 
+                               f, held, old, oldh, popped, it, nx, st, wi, wl, 
+                               ph, ipi, ret, mret >>
 
 w_chk(self) == /\ pc[self] = "w_chk"
                /\ IF (IF ph[self] = 1 THEN registry ELSE cursnap) # {}
@@ -1615,106 +1971,119 @@ w_chk(self) == /\ pc[self] = "w_chk"
                                 THEN /\ pc' = [pc EXCEPT ![self] = "w_done"]
                                 ELSE /\ pc' = [pc EXCEPT ![self] = "w_mm2"]
                /\ UNCHANGED << mem, sb, lock, acc, registry, cursnap, qsr, 
-                               sleeping, woken, faults, sigs, myctr, insig, 
-                               hcs, alive, cs, pre, T, htmp, hg, hf, hheld, 
-                               entry, i, op, res, tmp, g, f, held, old, oldh, 
-                               popped, it, nx, st, wi, wl, ph, scan, v, ipi, 
-                               ret, mret >>
+                               regd, sleeping, woken, faults, sigs, myctr, 
+                               insig, hcs, alive, cs, pre, T, htmp, hg, hf, 
+                               hheld, entry, i, op, res, tmp, g, f, held, old, 
+                               oldh, popped, it, nx, st, wi, wl, ph, scan, v, 
+                               ipi, ret, mret >>
 
 w_mm2(self) == /\ pc[self] = "w_mm2"
                /\ mret' = [mret EXCEPT ![self] = "w_st0"]
-               /\ pc' = [pc EXCEPT ![self] = "master"]
+               /\ IF "w_mm2" \in Skip
+                     THEN /\ pc' = [pc EXCEPT ![self] = "w_st0"]
+                     ELSE /\ pc' = [pc EXCEPT ![self] = "master"]
                /\ UNCHANGED << mem, sb, lock, acc, registry, cursnap, qsr, 
-                               sleeping, woken, faults, sigs, myctr, insig, 
-                               hcs, alive, cs, pre, T, htmp, hg, hf, hheld, 
-                               entry, i, op, res, tmp, g, f, held, old, oldh, 
-                               popped, it, nx, st, wi, wl, ph, scan, v, ipi, 
-                               ret >>
+                               regd, sleeping, woken, faults, sigs, myctr, 
+                               insig, hcs, alive, cs, pre, T, htmp, hg, hf, 
+                               hheld, entry, i, op, res, tmp, g, f, held, old, 
+                               oldh, popped, it, nx, st, wi, wl, ph, scan, v, 
+                               ipi, ret >>
 
 w_st0(self) == /\ pc[self] = "w_st0"
                /\ IF TSO
-                     THEN /\ sb' = [sb EXCEPT ![self] = Append(sb[self], <<"gp_futex", 0>>)]
+                     THEN /\ ~SBBlock \/ Len(sb[self]) < SBMax
+                          /\ sb' = [sb EXCEPT ![self] = Append(sb[self], <<"gp_futex", 0>>)]
                           /\ mem' = mem
                      ELSE /\ mem' = [mem EXCEPT !["gp_futex"] = 0]
                           /\ sb' = sb
                /\ acc' = Ev(self, "st", "gp_futex", 0, "-", "-")
                /\ pc' = [pc EXCEPT ![self] = "w_done"]
-               /\ UNCHANGED << lock, registry, cursnap, qsr, sleeping, woken, 
-                               faults, sigs, myctr, insig, hcs, alive, cs, pre, 
-                               T, htmp, hg, hf, hheld, entry, i, op, res, tmp, 
-                               g, f, held, old, oldh, popped, it, nx, st, wi, 
-                               wl, ph, scan, v, ipi, ret, mret >>
+               /\ UNCHANGED << lock, registry, cursnap, qsr, regd, sleeping, 
+                               woken, faults, sigs, myctr, insig, hcs, alive, 
+                               cs, pre, T, htmp, hg, hf, hheld, entry, i, op, 
+                               res, tmp, g, f, held, old, oldh, popped, it, nx, 
+                               st, wi, wl, ph, scan, v, ipi, ret, mret >>
 
 w_done(self) == /\ pc[self] = "w_done"
                 /\ IF ret[self] = "s_mb2"
                       THEN /\ pc' = [pc EXCEPT ![self] = "s_mb2"]
                       ELSE /\ pc' = [pc EXCEPT ![self] = "s_splice"]
                 /\ UNCHANGED << mem, sb, lock, acc, registry, cursnap, qsr, 
-                                sleeping, woken, faults, sigs, myctr, insig, 
-                                hcs, alive, cs, pre, T, htmp, hg, hf, hheld, 
-                                entry, i, op, res, tmp, g, f, held, old, oldh, 
-                                popped, it, nx, st, wi, wl, ph, scan, v, ipi, 
-                                ret, mret >>
+                                regd, sleeping, woken, faults, sigs, myctr, 
+                                insig, hcs, alive, cs, pre, T, htmp, hg, hf, 
+                                hheld, entry, i, op, res, tmp, g, f, held, old, 
+                                oldh, popped, it, nx, st, wi, wl, ph, scan, v, 
+                                ipi, ret, mret >>
 
 w_wait(self) == /\ pc[self] = "w_wait"
                 /\ IF wl[self] < QSAttempts
                       THEN /\ pc' = [pc EXCEPT ![self] = "wr_unl"]
                       ELSE /\ pc' = [pc EXCEPT ![self] = "wg_mm"]
                 /\ UNCHANGED << mem, sb, lock, acc, registry, cursnap, qsr, 
-                                sleeping, woken, faults, sigs, myctr, insig, 
-                                hcs, alive, cs, pre, T, htmp, hg, hf, hheld, 
-                                entry, i, op, res, tmp, g, f, held, old, oldh, 
-                                popped, it, nx, st, wi, wl, ph, scan, v, ipi, 
-                                ret, mret >>
+                                regd, sleeping, woken, faults, sigs, myctr, 
+                                insig, hcs, alive, cs, pre, T, htmp, hg, hf, 
+                                hheld, entry, i, op, res, tmp, g, f, held, old, 
+                                oldh, popped, it, nx, st, wi, wl, ph, scan, v, 
+                                ipi, ret, mret >>
 
 wg_mm(self) == /\ pc[self] = "wg_mm"
                /\ mret' = [mret EXCEPT ![self] = "wg_unl"]
-               /\ pc' = [pc EXCEPT ![self] = "master"]
+               /\ IF "wg_mm" \in Skip
+                     THEN /\ pc' = [pc EXCEPT ![self] = "wg_unl"]
+                     ELSE /\ pc' = [pc EXCEPT ![self] = "master"]
                /\ UNCHANGED << mem, sb, lock, acc, registry, cursnap, qsr, 
-                               sleeping, woken, faults, sigs, myctr, insig, 
-                               hcs, alive, cs, pre, T, htmp, hg, hf, hheld, 
-                               entry, i, op, res, tmp, g, f, held, old, oldh, 
-                               popped, it, nx, st, wi, wl, ph, scan, v, ipi, 
-                               ret >>
+                               regd, sleeping, woken, faults, sigs, myctr, 
+                               insig, hcs, alive, cs, pre, T, htmp, hg, hf, 
+                               hheld, entry, i, op, res, tmp, g, f, held, old, 
+                               oldh, popped, it, nx, st, wi, wl, ph, scan, v, 
+                               ipi, ret >>
 
 wg_unl(self) == /\ pc[self] = "wg_unl"
                 /\ Drained(self)
                 /\ lock' = [lock EXCEPT !["registry_lock"] = "free"]
                 /\ acc' = Ev(self, "unlock", "registry_lock", "-", "-", "-")
                 /\ pc' = [pc EXCEPT ![self] = "wg_ld"]
-                /\ UNCHANGED << mem, sb, registry, cursnap, qsr, sleeping, 
-                                woken, faults, sigs, myctr, insig, hcs, alive, 
-                                cs, pre, T, htmp, hg, hf, hheld, entry, i, op, 
-                                res, tmp, g, f, held, old, oldh, popped, it, 
-                                nx, st, wi, wl, ph, scan, v, ipi, ret, mret >>
+                /\ UNCHANGED << mem, sb, registry, cursnap, qsr, regd, 
+                                sleeping, woken, faults, sigs, myctr, insig, 
+                                hcs, alive, cs, pre, T, htmp, hg, hf, hheld, 
+                                entry, i, op, res, tmp, g, f, held, old, oldh, 
+                                popped, it, nx, st, wi, wl, ph, scan, v, ipi, 
+                                ret, mret >>
 
 wg_ld(self) == /\ pc[self] = "wg_ld"
                /\ f' = [f EXCEPT ![self] = Rd(self, "gp_futex")]
                /\ acc' = Ev(self, "ld", "gp_futex", "-", "-", Rd(self, "gp_futex"))
                /\ IF f'[self] # -1
                      THEN /\ pc' = [pc EXCEPT ![self] = "wg_lock"]
-                     ELSE /\ pc' = [pc EXCEPT ![self] = "wg_fw"]
-               /\ UNCHANGED << mem, sb, lock, registry, cursnap, qsr, sleeping, 
-                               woken, faults, sigs, myctr, insig, hcs, alive, 
-                               cs, pre, T, htmp, hg, hf, hheld, entry, i, op, 
-                               res, tmp, g, held, old, oldh, popped, it, nx, 
-                               st, wi, wl, ph, scan, v, ipi, ret, mret >>
+                     ELSE /\ IF FutexMode = "compat"
+                                THEN /\ pc' = [pc EXCEPT ![self] = "wgc_mb"]
+                                ELSE /\ pc' = [pc EXCEPT ![self] = "wg_fw"]
+               /\ UNCHANGED << mem, sb, lock, registry, cursnap, qsr, regd, 
+                               sleeping, woken, faults, sigs, myctr, insig, 
+                               hcs, alive, cs, pre, T, htmp, hg, hf, hheld, 
+                               entry, i, op, res, tmp, g, held, old, oldh, 
+                               popped, it, nx, st, wi, wl, ph, scan, v, ipi, 
+                               ret, mret >>
 
 wg_fw(self) == /\ pc[self] = "wg_fw"
                /\ Drained(self)
-               /\ IF mem["gp_futex"] # -1
-                     THEN /\ acc' = Ev(self, "fwait", "gp_futex", -1, "-", "EAGAIN")
-                          /\ pc' = [pc EXCEPT ![self] = "wg_lock"]
+               /\ IF FutexMode # "futex"
+                     THEN /\ acc' = Ev(self, "fwait", "gp_futex", "-", "-", "ENOSYS")
+                          /\ pc' = [pc EXCEPT ![self] = "wgc_mb"]
                           /\ UNCHANGED << sleeping, woken >>
-                     ELSE /\ sleeping' = [sleeping EXCEPT ![self] = "gp_futex"]
-                          /\ woken' = [woken EXCEPT ![self] = FALSE]
-                          /\ acc' = Ev(self, "fwait", "gp_futex", -1, "-", "SLEEP")
-                          /\ pc' = [pc EXCEPT ![self] = "wg_wk"]
-               /\ UNCHANGED << mem, sb, lock, registry, cursnap, qsr, faults, 
-                               sigs, myctr, insig, hcs, alive, cs, pre, T, 
-                               htmp, hg, hf, hheld, entry, i, op, res, tmp, g, 
-                               f, held, old, oldh, popped, it, nx, st, wi, wl, 
-                               ph, scan, v, ipi, ret, mret >>
+                     ELSE /\ IF mem["gp_futex"] # -1
+                                THEN /\ acc' = Ev(self, "fwait", "gp_futex", -1, "-", "EAGAIN")
+                                     /\ pc' = [pc EXCEPT ![self] = "wg_lock"]
+                                     /\ UNCHANGED << sleeping, woken >>
+                                ELSE /\ sleeping' = [sleeping EXCEPT ![self] = "gp_futex"]
+                                     /\ woken' = [woken EXCEPT ![self] = FALSE]
+                                     /\ acc' = Ev(self, "fwait", "gp_futex", -1, "-", "SLEEP")
+                                     /\ pc' = [pc EXCEPT ![self] = "wg_wk"]
+               /\ UNCHANGED << mem, sb, lock, registry, cursnap, qsr, regd, 
+                               faults, sigs, myctr, insig, hcs, alive, cs, pre, 
+                               T, htmp, hg, hf, hheld, entry, i, op, res, tmp, 
+                               g, f, held, old, oldh, popped, it, nx, st, wi, 
+                               wl, ph, scan, v, ipi, ret, mret >>
 
 wg_wk(self) == /\ pc[self] = "wg_wk"
                /\ \/ /\ woken[self]
@@ -1729,44 +2098,71 @@ wg_wk(self) == /\ pc[self] = "wg_wk"
                /\ sleeping' = [sleeping EXCEPT ![self] = "none"]
                /\ woken' = [woken EXCEPT ![self] = FALSE]
                /\ pc' = [pc EXCEPT ![self] = "wg_ld"]
-               /\ UNCHANGED << mem, sb, lock, registry, cursnap, qsr, sigs, 
-                               myctr, insig, hcs, alive, cs, pre, T, htmp, hg, 
-                               hf, hheld, entry, i, op, res, tmp, g, f, held, 
-                               old, oldh, popped, it, nx, st, wi, wl, ph, scan, 
-                               v, ipi, ret, mret >>
+               /\ UNCHANGED << mem, sb, lock, registry, cursnap, qsr, regd, 
+                               sigs, myctr, insig, hcs, alive, cs, pre, T, 
+                               htmp, hg, hf, hheld, entry, i, op, res, tmp, g, 
+                               f, held, old, oldh, popped, it, nx, st, wi, wl, 
+                               ph, scan, v, ipi, ret, mret >>
+
+wgc_mb(self) == /\ pc[self] = "wgc_mb"
+                /\ Drained(self)
+                /\ acc' = Ev(self, "mb", "-", "-", "-", "-")
+                /\ pc' = [pc EXCEPT ![self] = "wgc_ld"]
+                /\ UNCHANGED << mem, sb, lock, registry, cursnap, qsr, regd, 
+                                sleeping, woken, faults, sigs, myctr, insig, 
+                                hcs, alive, cs, pre, T, htmp, hg, hf, hheld, 
+                                entry, i, op, res, tmp, g, f, held, old, oldh, 
+                                popped, it, nx, st, wi, wl, ph, scan, v, ipi, 
+                                ret, mret >>
+
+wgc_ld(self) == /\ pc[self] = "wgc_ld"
+                /\ f' = [f EXCEPT ![self] = Rd(self, "gp_futex")]
+                /\ acc' = Ev(self, "ld", "gp_futex", "-", "-", Rd(self, "gp_futex"))
+                /\ IF f'[self] = -1
+                      THEN /\ pc' = [pc EXCEPT ![self] = "wgc_ld"]
+                      ELSE /\ pc' = [pc EXCEPT ![self] = "wg_ld"]
+                /\ UNCHANGED << mem, sb, lock, registry, cursnap, qsr, regd, 
+                                sleeping, woken, faults, sigs, myctr, insig, 
+                                hcs, alive, cs, pre, T, htmp, hg, hf, hheld, 
+                                entry, i, op, res, tmp, g, held, old, oldh, 
+                                popped, it, nx, st, wi, wl, ph, scan, v, ipi, 
+                                ret, mret >>
 
 wg_lock(self) == /\ pc[self] = "wg_lock"
                  /\ Drained(self) /\ lock["registry_lock"] = "free"
                  /\ lock' = [lock EXCEPT !["registry_lock"] = self]
                  /\ acc' = Ev(self, "lock", "registry_lock", "-", "-", "-")
                  /\ pc' = [pc EXCEPT ![self] = "w_loop"]
-                 /\ UNCHANGED << mem, sb, registry, cursnap, qsr, sleeping, 
-                                 woken, faults, sigs, myctr, insig, hcs, alive, 
-                                 cs, pre, T, htmp, hg, hf, hheld, entry, i, op, 
-                                 res, tmp, g, f, held, old, oldh, popped, it, 
-                                 nx, st, wi, wl, ph, scan, v, ipi, ret, mret >>
+                 /\ UNCHANGED << mem, sb, registry, cursnap, qsr, regd, 
+                                 sleeping, woken, faults, sigs, myctr, insig, 
+                                 hcs, alive, cs, pre, T, htmp, hg, hf, hheld, 
+                                 entry, i, op, res, tmp, g, f, held, old, oldh, 
+                                 popped, it, nx, st, wi, wl, ph, scan, v, ipi, 
+                                 ret, mret >>
 
 wr_unl(self) == /\ pc[self] = "wr_unl"
                 /\ Drained(self)
                 /\ lock' = [lock EXCEPT !["registry_lock"] = "free"]
                 /\ acc' = Ev(self, "unlock", "registry_lock", "-", "-", "-")
                 /\ pc' = [pc EXCEPT ![self] = "wr_lock"]
-                /\ UNCHANGED << mem, sb, registry, cursnap, qsr, sleeping, 
-                                woken, faults, sigs, myctr, insig, hcs, alive, 
-                                cs, pre, T, htmp, hg, hf, hheld, entry, i, op, 
-                                res, tmp, g, f, held, old, oldh, popped, it, 
-                                nx, st, wi, wl, ph, scan, v, ipi, ret, mret >>
+                /\ UNCHANGED << mem, sb, registry, cursnap, qsr, regd, 
+                                sleeping, woken, faults, sigs, myctr, insig, 
+                                hcs, alive, cs, pre, T, htmp, hg, hf, hheld, 
+                                entry, i, op, res, tmp, g, f, held, old, oldh, 
+                                popped, it, nx, st, wi, wl, ph, scan, v, ipi, 
+                                ret, mret >>
 
 wr_lock(self) == /\ pc[self] = "wr_lock"
                  /\ Drained(self) /\ lock["registry_lock"] = "free"
                  /\ lock' = [lock EXCEPT !["registry_lock"] = self]
                  /\ acc' = Ev(self, "lock", "registry_lock", "-", "-", "-")
                  /\ pc' = [pc EXCEPT ![self] = "w_loop"]
-                 /\ UNCHANGED << mem, sb, registry, cursnap, qsr, sleeping, 
-                                 woken, faults, sigs, myctr, insig, hcs, alive, 
-                                 cs, pre, T, htmp, hg, hf, hheld, entry, i, op, 
-                                 res, tmp, g, f, held, old, oldh, popped, it, 
-                                 nx, st, wi, wl, ph, scan, v, ipi, ret, mret >>
+                 /\ UNCHANGED << mem, sb, registry, cursnap, qsr, regd, 
+                                 sleeping, woken, faults, sigs, myctr, insig, 
+                                 hcs, alive, cs, pre, T, htmp, hg, hf, hheld, 
+                                 entry, i, op, res, tmp, g, f, held, old, oldh, 
+                                 popped, it, nx, st, wi, wl, ph, scan, v, ipi, 
+                                 ret, mret >>
 
 master(self) == /\ pc[self] = "master"
                 /\ IF Flavor = "memb" /\ SysMb
@@ -1775,21 +2171,21 @@ master(self) == /\ pc[self] = "master"
                       ELSE /\ pc' = [pc EXCEPT ![self] = "m_mb"]
                            /\ ipi' = ipi
                 /\ UNCHANGED << mem, sb, lock, acc, registry, cursnap, qsr, 
-                                sleeping, woken, faults, sigs, myctr, insig, 
-                                hcs, alive, cs, pre, T, htmp, hg, hf, hheld, 
-                                entry, i, op, res, tmp, g, f, held, old, oldh, 
-                                popped, it, nx, st, wi, wl, ph, scan, v, ret, 
-                                mret >>
+                                regd, sleeping, woken, faults, sigs, myctr, 
+                                insig, hcs, alive, cs, pre, T, htmp, hg, hf, 
+                                hheld, entry, i, op, res, tmp, g, f, held, old, 
+                                oldh, popped, it, nx, st, wi, wl, ph, scan, v, 
+                                ret, mret >>
 
 m_mb(self) == /\ pc[self] = "m_mb"
               /\ Drained(self)
               /\ acc' = Ev(self, "mb", "-", "-", "-", "-")
               /\ pc' = [pc EXCEPT ![self] = "m_ret"]
-              /\ UNCHANGED << mem, sb, lock, registry, cursnap, qsr, sleeping, 
-                              woken, faults, sigs, myctr, insig, hcs, alive, 
-                              cs, pre, T, htmp, hg, hf, hheld, entry, i, op, 
-                              res, tmp, g, f, held, old, oldh, popped, it, nx, 
-                              st, wi, wl, ph, scan, v, ipi, ret, mret >>
+              /\ UNCHANGED << mem, sb, lock, registry, cursnap, qsr, regd, 
+                              sleeping, woken, faults, sigs, myctr, insig, hcs, 
+                              alive, cs, pre, T, htmp, hg, hf, hheld, entry, i, 
+                              op, res, tmp, g, f, held, old, oldh, popped, it, 
+                              nx, st, wi, wl, ph, scan, v, ipi, ret, mret >>
 
 m_ipi(self) == /\ pc[self] = "m_ipi"
                /\ IF ipi[self] # {}
@@ -1800,20 +2196,21 @@ m_ipi(self) == /\ pc[self] = "m_ipi"
                      ELSE /\ pc' = [pc EXCEPT ![self] = "m_sys"]
                           /\ ipi' = ipi
                /\ UNCHANGED << mem, sb, lock, acc, registry, cursnap, qsr, 
-                               sleeping, woken, faults, sigs, myctr, insig, 
-                               hcs, alive, cs, pre, T, htmp, hg, hf, hheld, 
-                               entry, i, op, res, tmp, g, f, held, old, oldh, 
-                               popped, it, nx, st, wi, wl, ph, scan, v, ret, 
-                               mret >>
+                               regd, sleeping, woken, faults, sigs, myctr, 
+                               insig, hcs, alive, cs, pre, T, htmp, hg, hf, 
+                               hheld, entry, i, op, res, tmp, g, f, held, old, 
+                               oldh, popped, it, nx, st, wi, wl, ph, scan, v, 
+                               ret, mret >>
 
 m_sys(self) == /\ pc[self] = "m_sys"
                /\ acc' = Ev(self, "sysmb", "-", "-", "-", "-")
                /\ pc' = [pc EXCEPT ![self] = "m_ret"]
-               /\ UNCHANGED << mem, sb, lock, registry, cursnap, qsr, sleeping, 
-                               woken, faults, sigs, myctr, insig, hcs, alive, 
-                               cs, pre, T, htmp, hg, hf, hheld, entry, i, op, 
-                               res, tmp, g, f, held, old, oldh, popped, it, nx, 
-                               st, wi, wl, ph, scan, v, ipi, ret, mret >>
+               /\ UNCHANGED << mem, sb, lock, registry, cursnap, qsr, regd, 
+                               sleeping, woken, faults, sigs, myctr, insig, 
+                               hcs, alive, cs, pre, T, htmp, hg, hf, hheld, 
+                               entry, i, op, res, tmp, g, f, held, old, oldh, 
+                               popped, it, nx, st, wi, wl, ph, scan, v, ipi, 
+                               ret, mret >>
 
 m_ret(self) == /\ pc[self] = "m_ret"
                /\ IF mret[self] = "s_p1"
@@ -1826,31 +2223,31 @@ m_ret(self) == /\ pc[self] = "m_ret"
                                                       THEN /\ pc' = [pc EXCEPT ![self] = "wg_unl"]
                                                       ELSE /\ pc' = [pc EXCEPT ![self] = "s_out"]
                /\ UNCHANGED << mem, sb, lock, acc, registry, cursnap, qsr, 
-                               sleeping, woken, faults, sigs, myctr, insig, 
-                               hcs, alive, cs, pre, T, htmp, hg, hf, hheld, 
-                               entry, i, op, res, tmp, g, f, held, old, oldh, 
-                               popped, it, nx, st, wi, wl, ph, scan, v, ipi, 
-                               ret, mret >>
+                               regd, sleeping, woken, faults, sigs, myctr, 
+                               insig, hcs, alive, cs, pre, T, htmp, hg, hf, 
+                               hheld, entry, i, op, res, tmp, g, f, held, old, 
+                               oldh, popped, it, nx, st, wi, wl, ph, scan, v, 
+                               ipi, ret, mret >>
 
 t_ret(self) == /\ pc[self] = "t_ret"
                /\ i' = [i EXCEPT ![self] = i[self] + 1]
                /\ pc' = [pc EXCEPT ![self] = "t_top"]
                /\ UNCHANGED << mem, sb, lock, acc, registry, cursnap, qsr, 
-                               sleeping, woken, faults, sigs, myctr, insig, 
-                               hcs, alive, cs, pre, T, htmp, hg, hf, hheld, 
-                               entry, op, res, tmp, g, f, held, old, oldh, 
-                               popped, it, nx, st, wi, wl, ph, scan, v, ipi, 
-                               ret, mret >>
+                               regd, sleeping, woken, faults, sigs, myctr, 
+                               insig, hcs, alive, cs, pre, T, htmp, hg, hf, 
+                               hheld, entry, op, res, tmp, g, f, held, old, 
+                               oldh, popped, it, nx, st, wi, wl, ph, scan, v, 
+                               ipi, ret, mret >>
 
 t_end(self) == /\ pc[self] = "t_end"
                /\ TRUE
                /\ pc' = [pc EXCEPT ![self] = "Done"]
                /\ UNCHANGED << mem, sb, lock, acc, registry, cursnap, qsr, 
-                               sleeping, woken, faults, sigs, myctr, insig, 
-                               hcs, alive, cs, pre, T, htmp, hg, hf, hheld, 
-                               entry, i, op, res, tmp, g, f, held, old, oldh, 
-                               popped, it, nx, st, wi, wl, ph, scan, v, ipi, 
-                               ret, mret >>
+                               regd, sleeping, woken, faults, sigs, myctr, 
+                               insig, hcs, alive, cs, pre, T, htmp, hg, hf, 
+                               hheld, entry, i, op, res, tmp, g, f, held, old, 
+                               oldh, popped, it, nx, st, wi, wl, ph, scan, v, 
+                               ipi, ret, mret >>
 
 thr(self) == t_top(self) \/ t_disp(self) \/ g_lock(self) \/ g_add(self)
                 \/ g_unl(self) \/ x_lock(self) \/ x_del(self)
@@ -1859,27 +2256,32 @@ thr(self) == t_top(self) \/ t_disp(self) \/ g_lock(self) \/ g_add(self)
                 \/ rl_nest(self) \/ ru_top(self) \/ ru_out(self)
                 \/ ru_mb1(self) \/ ru_st(self) \/ ru_mb2(self)
                 \/ ru_ldf(self) \/ ru_stf(self) \/ ru_wake(self)
-                \/ ru_nest(self) \/ dr_ld(self) \/ p_xchg(self)
-                \/ s_call(self) \/ s_mb0(self) \/ s_push(self)
-                \/ s_link(self) \/ s_run(self) \/ s_gplk(self)
-                \/ s_pop(self) \/ s_popmb(self) \/ s_rglk(self)
-                \/ s_mm1(self) \/ s_p1(self) \/ s_mb2(self) \/ s_flip(self)
-                \/ s_mb3(self) \/ s_p2(self) \/ s_splice(self)
-                \/ s_mm2(self) \/ s_out(self) \/ s_gpun(self)
-                \/ k_top(self) \/ k_next(self) \/ k_ldst(self)
-                \/ k_as(self) \/ k_wk(self) \/ k_ld2(self) \/ k_fw(self)
+                \/ ru_cmb(self) \/ ru_nest(self) \/ dr_ld(self)
+                \/ p_xchg(self) \/ s_call(self) \/ s_mb0(self)
+                \/ s_push(self) \/ s_link(self) \/ s_run(self)
+                \/ s_gplk(self) \/ s_pop(self) \/ s_popmb(self)
+                \/ s_rglk(self) \/ s_mm1(self) \/ s_p1(self) \/ s_mb2(self)
+                \/ s_flip(self) \/ s_mb3(self) \/ s_p2(self)
+                \/ s_splice(self) \/ s_mm2(self) \/ s_out(self)
+                \/ s_gpun(self) \/ k_top(self) \/ k_next(self)
+                \/ k_ldst(self) \/ k_as(self) \/ k_wk(self) \/ k_ld2(self)
+                \/ k_fw(self) \/ kc_mb(self) \/ kn_mb(self)
+                \/ kn_lock(self) \/ kn_bc(self) \/ kn_unl(self)
                 \/ k_or(self) \/ a_ld1(self) \/ a_ld2(self) \/ a_fw(self)
-                \/ a_wk(self) \/ a_or(self) \/ a_ld3(self) \/ a_ld4(self)
-                \/ a_ld5(self) \/ s_ret(self) \/ w_top(self)
-                \/ w_loop(self) \/ w_dec(self) \/ w_mm(self)
-                \/ w_scan0(self) \/ w_scan(self) \/ w_ldr(self)
-                \/ w_chk(self) \/ w_mm2(self) \/ w_st0(self)
-                \/ w_done(self) \/ w_wait(self) \/ wg_mm(self)
-                \/ wg_unl(self) \/ wg_ld(self) \/ wg_fw(self)
-                \/ wg_wk(self) \/ wg_lock(self) \/ wr_unl(self)
-                \/ wr_lock(self) \/ master(self) \/ m_mb(self)
-                \/ m_ipi(self) \/ m_sys(self) \/ m_ret(self) \/ t_ret(self)
-                \/ t_end(self)
+                \/ a_wk(self) \/ ac_mb(self) \/ ac_ld(self) \/ an_mb(self)
+                \/ an_lock(self) \/ an_ld(self) \/ an_cw(self)
+                \/ an_cwk(self) \/ an_relk(self) \/ an_unl(self)
+                \/ a_or(self) \/ a_ld3(self) \/ a_ld4(self) \/ a_ld5(self)
+                \/ s_ret(self) \/ w_top(self) \/ w_loop(self)
+                \/ w_dec(self) \/ w_mm(self) \/ w_scan0(self)
+                \/ w_scan(self) \/ w_ldr(self) \/ w_chk(self)
+                \/ w_mm2(self) \/ w_st0(self) \/ w_done(self)
+                \/ w_wait(self) \/ wg_mm(self) \/ wg_unl(self)
+                \/ wg_ld(self) \/ wg_fw(self) \/ wg_wk(self)
+                \/ wgc_mb(self) \/ wgc_ld(self) \/ wg_lock(self)
+                \/ wr_unl(self) \/ wr_lock(self) \/ master(self)
+                \/ m_mb(self) \/ m_ipi(self) \/ m_sys(self) \/ m_ret(self)
+                \/ t_ret(self) \/ t_end(self)
 
 Next == (\E self \in Flushers: flusher(self))
            \/ (\E self \in SigIds: sig(self))
@@ -1902,4 +2304,24 @@ DeadlockFree == AllDone \/ ENABLED Next
 SBBound == \A t \in Threads : Len(sb[t]) <= SBMax
 LockOrder == ~(\E t \in Threads : lock["registry_lock"] = t /\ pc[t] = "s_gplk")
 FutexRange == mem["gp_futex"] \in {0, -1}
+
+\* ---- C02: liveness.  Weak fairness of every thread and of every store-buffer flush agent; no fairness for signal handlers
+\* (none in the liveness configurations) and none needed for faults (bounded by FaultBudget).
+FairSpec == /\ Init /\ [][Next]_vars
+            /\ \A self \in Flushers : WF_vars(flusher(self))
+            /\ \A self \in Threads : WF_vars(thr(self))
+Termination == <>AllDone                     \* every thread finishes its (finite) program: every synchronize_rcu() call returned
+SyncReturns == \A t \in Threads : (pc[t] = "s_call") ~> (pc[t] = "t_ret")     \* per-call form
+\* no thread sleeps (futex or condition variable) for ever once everybody else is done or asleep: implied by DeadlockFree
+
+\* ---- C15: the three reader lists partition exactly the set of registered threads; outside a grace period all of them are
+\* back in the registry.  (No load of a departed reader's word: assertion in w_ldr.  Sections only of registered threads:
+\* assertion in rl_top, so GPGuarantee in s_ret ranges over sections of registered threads.)
+RegistryExact == /\ registry \cup cursnap \cup qsr = regd
+                 /\ registry \cap cursnap = {} /\ registry \cap qsr = {} /\ cursnap \cap qsr = {}
+ListsHome == lock["gp_lock"] = "free" => cursnap = {} /\ qsr = {}
+RegLockDiscipline == \A t \in Threads : pc[t] \in {"g_add", "g_unl", "x_del", "x_unl", "w_scan", "w_ldr", "w_chk", "s_splice"} => lock["registry_lock"] = t
+\* the registry as the driver's "proj" events see it: list surgery of a thread that holds the registry lock has already been
+\* executed by the code (it is plain code between two scheduling points) but is a separate, silent step of the specification
+ProjMembers == ((registry \cup cursnap \cup qsr) \cup {t \in Threads : pc[t] = "g_add"}) \ {t \in Threads : pc[t] = "x_del"}
 =============================================================================
